@@ -4,16 +4,25 @@
 (* shared access / decision of                                             *)
 (*   cds_lfht_resize, resize_target_update_count, _do_cds_lfht_resize,     *)
 (*   _do_cds_lfht_grow/init_table, _do_cds_lfht_shrink/fini_table,         *)
+(*   partition_resize_helper / partition_resize_thread (helper threads,    *)
+(*   pthread_create failing with EAGAIN, single-threaded fallback),        *)
 (*   resize_target_grow (_uatomic_xchg_monotonic_increase),                *)
 (*   cds_lfht_resize_lazy_grow / _lazy_count, __cds_lfht_resize_lazy_launch*)
-(*   check_resize, ht_count_add / ht_count_del (split counters),           *)
+(*   check_resize (from cds_lfht_add AND from the bucket insertions of     *)
+(*   init_table_populate), ht_count_add / ht_count_del (split counters),   *)
 (*   do_resize_cb / do_auto_resize_destroy_cb on the work-queue thread,    *)
 (*   cds_lfht_destroy / cds_lfht_delete_bucket,                            *)
-(* under SC or x86-TSO store buffers.  The bucket lists themselves are     *)
-(* abstract (populate / remove_table are one step each: spec/Lfht.tla,     *)
-(* C05/C07); the work queue is a FIFO (src/workqueue.c is executed for     *)
-(* real by the driver); grace periods follow AbstractRcu (blocking step    *)
-(* enabled when every read-side section open at its start has ended).      *)
+(* under SC or x86-TSO store buffers.                                      *)
+(*                                                                         *)
+(* Abstractions: the bucket lists are not modelled (the list work of one   *)
+(* partition of populate / remove_table, of add, del, lookup is one silent *)
+(* step; contents at CAS granularity: spec/Lfht.tla, C05/C07); chain       *)
+(* lengths seen by check_resize are nondeterministic (growth in Growths,   *)
+(* at most MaxChk / MaxChkP calls); the work queue is a FIFO (the real     *)
+(* src/workqueue.c is executed by the driver); grace periods follow        *)
+(* harness/absrcu.h == AbstractRcu (blocking step enabled when every       *)
+(* read-side section open at its start has ended); pthread_create and      *)
+(* pthread_join are full fences (system calls).                            *)
 (*                                                                         *)
 (* Operations of a scenario (Prog[t]):                                     *)
 (*   [op |-> "resize", ns |-> set of requested sizes]  cds_lfht_resize     *)
@@ -23,7 +32,21 @@
 (*   [op |-> "destroy"] (after every other thread finished) cds_lfht_destroy*)
 (* Ghosts: alloc[order] in {none, allocated, published, unlinked, freed},  *)
 (* gpok (grace period elapsed since unlink), held[reader] (orders a reader *)
-(* may still dereference), htAlive, items, err / errA (violated checks).   *)
+(* may still dereference), htAlive, items, pcov (buckets handled by the    *)
+(* partitions of one populate / remove), err / errA (violated checks:      *)
+(* free before grace period, free while published, access to the freed     *)
+(* table, partition cover, ...).                                           *)
+(*                                                                         *)
+(* Mut (mutation tags, {} for every claim; negative controls of the check):*)
+(*   no_gp      fini_table frees without waiting for a grace period        *)
+(*   pub_first  init_table stores ht->size before allocating the order     *)
+(*   noclamp    resize_target_update_count does not clamp to max_nr_buckets*)
+(*   no_mb      no fence between resize_initiated = 0 and the re-read      *)
+(*   no_ipd     lazy launch does not test in_progress_destroy (within the  *)
+(*              API contract this test never reads 1 while                 *)
+(*              resize_initiated is 0: not distinguishable, no control)    *)
+(* Repaired = FALSE is the unrepaired resize_target_update_count of        *)
+(* finding F1 (negative control: Returns must be violated).                *)
 (***************************************************************************)
 EXTENDS Integers, Sequences, FiniteSets, TLC
 
@@ -44,12 +67,19 @@ CONSTANTS Threads,     \* scenario threads (strings)
           Items0,      \* nodes in the table initially
           Growths,     \* values of `growth' check_resize may compute from a chain length >= 3
           MaxChk,      \* bound on check_resize calls of one add
+          MaxChkP,     \* bound on check_resize calls of one populate partition (bucket insertion walks the parent's chain)
           Repaired,    \* TRUE: resize_target_update_count rounds up to a power of two (fix of F1)
+          NrCpusMask,  \* nr_cpus_mask of rculfhash.c: SCMask, or -2 (NR_CPUS_MASK_INIT_FAILED)
+          MPO,         \* MIN_PARTITION_PER_THREAD_ORDER
+          FailAt,      \* index (0-based, counting every pthread_create of the library) of the create that returns EAGAIN; -1: none
           Mut,         \* set of mutation tags ({} for every claim)
           CheckGrowWins \* evaluate GrowWins (scenarios without explicit resize)
 
 W == "h1"                                   \* the work-queue thread (first thread the library creates)
-Procs == Threads \cup {W}
+Helpers == {"p1", "p2"}                      \* slots of the partition threads of one partition_resize_helper() call
+Slot(k) == "p" \o ToString(k)
+Procs == Threads \cup {W} \cup Helpers
+Idle == [st |-> "idle", par |-> "-", kind |-> "-", len |-> 0]
 BIG == 1000000                              \* stands for ULONG_MAX
 Pow2(k) == 2 ^ k
 Max2(a, b) == IF a >= b THEN a ELSE b
@@ -78,6 +108,7 @@ FlId(t) == "F:" \o t
 Flushers == {FlId(t) : t \in Procs}
 FlOf == [f \in Flushers |-> CHOOSE t \in Procs : FlId(t) = f]
 NoOp == [op |-> "none"]
+PartThreads(len, ncpumask, mpo) == IF ncpumask > 0 THEN Min2(ncpumask + 1, len \div Pow2(mpo)) ELSE 1
 
 (* --algorithm lfhtresize {
 variables
@@ -100,7 +131,12 @@ variables
   rv = [p \in Procs |-> 0],
   ra = [p \in Procs |-> 0], rb = [p \in Procs |-> 0], rs = [p \in Procs |-> 0],
   osz = [p \in Procs |-> 0], nsz = [p \in Procs |-> 0], oi = [p \in Procs |-> 0],
-  olast = [p \in Procs |-> 0], fbr = [p \in Procs |-> 0];
+  olast = [p \in Procs |-> 0], fbr = [p \in Procs |-> 0],
+  \* partition_resize_helper: job of each helper slot, number of pthread_create calls so far, locals of the caller
+  hjob = [h \in Helpers |-> Idle],
+  ncreate = IF AutoResize THEN 1 ELSE 0,          \* the work-queue thread is created by cds_lfht_new
+  pnt = [p \in Procs |-> 0], pk = [p \in Procs |-> 0], pstart = [p \in Procs |-> 0], plen = [p \in Procs |-> 0],
+  ppl = [p \in Procs |-> 0], pcov = [p \in Procs |-> 0], pn = [p \in Procs |-> 0], pg = [p \in Procs |-> 0];
 
 define {
   LastIdx(t, loc) == LET S == {j \in DOMAIN sb[t] : sb[t][j][1] = loc} IN
@@ -138,18 +174,58 @@ macro Unlock()            { await Drained(self); mutex := "free"; acc := Ev(self
 macro RLock()             { cs[self] := TRUE; acc := Ev(self, "rlock", "-", 0, 0, 0); }
 macro RUnlock()           { cs[self] := FALSE; held[self] := {}; gpw := [p \in Procs |-> gpw[p] \ {self}];
                             acc := Ev(self, "runlock", "-", 0, 0, 0); }
-\* update_synchronize_rcu(): gp_begin records the sections that are open, gp_end is enabled once they have all ended
-macro GpBegin()           { await Drained(self); gpw[self] := {p \in Procs \ {self} : cs[p]};
+\* update_synchronize_rcu() as implemented by harness/absrcu.h: gp_begin records the sections that are open (no fence yet),
+\* gp_end is enabled once they have all ended and the caller's store buffer is drained
+macro GpBegin()           { gpw[self] := {p \in Procs \ {self} : cs[p]};
                             gps[self] := {o \in Orders : alloc[o] = "unlinked"};
                             err := IF cs[self] THEN err \cup {"gp_in_cs"} ELSE err;
                             acc := Ev(self, "gp_begin", "-", 0, 0, 0); }
-macro GpEnd()             { await gpw[self] = {}; gpok := gpok \cup gps[self]; acc := Ev(self, "gp_end", "-", 0, 0, 0); }
+macro GpEnd()             { await Drained(self) /\ gpw[self] = {}; gpok := gpok \cup gps[self]; acc := Ev(self, "gp_end", "-", 0, 0, 0); }
 \* cds_lfht_free_bucket_table(ht, o) from fini_table: only an unlinked order, after a grace period, with the size lowered
 macro FreeOrder(o)        { err := err \cup (IF alloc[o] = "unlinked" THEN {} ELSE {"free_not_unlinked"})
                                        \cup (IF o \in gpok THEN {} ELSE {"free_before_gp"})
                                        \cup (IF \A s \in SizeVals : s <= Pow2(o - 1) THEN {} ELSE {"free_while_published"});
                             alloc[o] := "freed"; gpok := gpok \ {o};
                             acc := Ev(self, "bfree", "order", o, 0, 0); }
+
+\* ---------------------------------------------------------------- partition_resize_helper(ht, i, len, fct); i = oi[self], len = 2^(i-1)
+\* kind "pop": fct = init_table_populate_partition (bucket insertion: _cds_lfht_add calls check_resize per traversed node)
+\* kind "rem": fct = remove_table_partition (no access to the control variables)
+procedure partition(kind = "pop")
+{
+ph_top:    pcov[self] := 0; pstart[self] := 0; pk[self] := 0; pn[self] := 0; plen[self] := Pow2(oi[self] - 1);
+           if (NrCpusMask < 0 \/ Pow2(oi[self] - 1) < 2 * Pow2(MPO)) { pnt[self] := 0; goto ph_own }      \* goto fallback
+           else { pnt[self] := PartThreads(Pow2(oi[self] - 1), NrCpusMask, MPO);
+                  ppl[self] := Pow2(oi[self] - 1) \div Pow2(Order(PartThreads(Pow2(oi[self] - 1), NrCpusMask, MPO))) };
+ph_create: while (pk[self] < pnt[self]) {                          \* pthread_create(&work[thread].thread_id, ..., partition_resize_thread, ...)
+             await Drained(self);                                  \* a system call (clone): full fence
+             if (ncreate = FailAt) {                               \* EAGAIN: join what was created, handle the leftovers here
+               ncreate := ncreate + 1; acc := Ev(self, "fault", "pthread_create", 0, 0, 0);
+               pstart[self] := pk[self] * ppl[self]; plen[self] := plen[self] - pk[self] * ppl[self]; pnt[self] := pk[self];
+               goto ph_join0 }
+             else {
+               ncreate := ncreate + 1;
+               err := IF hjob[Slot(pk[self] + 1)].st = "idle" THEN err ELSE err \cup {"helper_slot_busy"};
+               hjob[Slot(pk[self] + 1)] := [st |-> "run", par |-> self, kind |-> kind, len |-> ppl[self]];
+               acc := Ev(self, "spawn", Slot(pk[self] + 1), 0, 0, 0);
+               pk[self] := pk[self] + 1 } };
+ph_join0:  pk[self] := 0;
+ph_join:   while (pk[self] < pnt[self]) {                          \* pthread_join(work[thread].thread_id, NULL)
+             await Drained(self) /\ hjob[Slot(pk[self] + 1)].st = "done" /\ sb[Slot(pk[self] + 1)] = <<>>;
+             hjob[Slot(pk[self] + 1)] := Idle;
+             acc := Ev(self, "join", Slot(pk[self] + 1), 0, 0, 0);
+             pk[self] := pk[self] + 1 };
+ph_after:  if (pstart[self] = 0 /\ pnt[self] > 0) { goto ph_done };     \* if (start == 0 && nr_threads > 0) return;
+ph_own:    pcov[self] := pcov[self] + plen[self];                  \* fallback: fct(ht, i, start, len) in the calling thread
+ph_walk:   either { await AutoResize /\ kind = "pop" /\ pn[self] < MaxChkP; pn[self] := pn[self] + 1;
+                    with (gg \in Growths \cup {0}) { pg[self] := gg } }
+           or     { goto ph_done };
+ph_chk:    call check_resize(Pow2(oi[self] - 1), pg[self]);
+ph_back:   goto ph_walk;
+ph_done:   await Drained(self);                                    \* every partition contains at least one locked instruction
+           err := IF pcov[self] = Pow2(oi[self] - 1) THEN err ELSE err \cup {"partition_cover"};
+           return;
+}
 
 \* ---------------------------------------------------------------- _do_cds_lfht_resize (resize_mutex held)
 procedure do_resize()
@@ -176,7 +252,7 @@ it_alloc:   if ("pub_first" \in Mut) { goto it_st_size }
               err := IF alloc[oi[self]] \in {"none", "freed"} THEN err ELSE err \cup {"alloc_twice"};
               alloc[oi[self]] := "allocated";                      \* cds_lfht_alloc_bucket_table(ht, i)
               acc := Ev(self, "balloc", "order", oi[self], 0, 0) };
-it_pop:     await Drained(self);                                   \* init_table_populate(ht, i, len): cmpxchg per bucket node
+it_pop:     call partition("pop");                                 \* init_table_populate(ht, i, len)
 it_st_size: St("size", Pow2(oi[self]));                            \* uatomic_store(&ht->size, 1UL << i, CMM_RELEASE)
             if ("pub_first" \in Mut) { goto it_alloc2 } else { alloc[oi[self]] := "published" };
 it_ld_ipd:  Ld(ra[self], "in_progress_destroy");                   \* if (uatomic_load(&ht->in_progress_destroy)) break;
@@ -194,8 +270,8 @@ ft_st_size: St("size", Pow2(oi[self] - 1));                        \* cmm_smp_wm
 ft_gp1_b:   if ("no_gp" \in Mut) { goto ft_free1 } else { GpBegin() };   \* ht->flavor->update_synchronize_rcu()
 ft_gp1_e:   GpEnd();
 ft_free1:   if (fbr[self] # 0) { FreeOrder(fbr[self]) };           \* if (free_by_rcu_order) cds_lfht_free_bucket_table(...)
-ft_remove:  await Drained(self);                                   \* remove_table(ht, i, len): uatomic_or + gc per bucket node
-            err := IF alloc[oi[self]] = "published" THEN err ELSE err \cup {"unlink_not_published"};
+ft_remove:  call partition("rem");                                 \* remove_table(ht, i, len)
+ft_unlnk:   err := IF alloc[oi[self]] = "published" THEN err ELSE err \cup {"unlink_not_published"};
             alloc[oi[self]] := "unlinked"; gpok := gpok \ {oi[self]};
             fbr[self] := oi[self];                                 \* free_by_rcu_order = i
 ft_ld_ipd:  Ld(ra[self], "in_progress_destroy");                   \* if (uatomic_load(&ht->in_progress_destroy)) break;
@@ -402,6 +478,25 @@ t_ret:    acc := Ev(self, "ret", op.op, 0, 0, res);
 t_fin:  done[self] := TRUE; acc := Ev(self, "fin", "-", 0, 0, 0);
 }
 
+\* ---------------------------------------------------------------- partition_resize_thread (slots p1, p2)
+fair process (helper \in Helpers)
+variables hn = 0, hg = 0;
+{
+hp_reg:   while (TRUE) {
+            await hjob[self].st = "run";
+            hn := 0; acc := Ev(self, "reg", "-", 0, 0, 0);         \* work->ht->flavor->register_thread()
+hp_walk:    either { await AutoResize /\ hjob[self].kind = "pop" /\ hn < MaxChkP; hn := hn + 1;
+                     with (gg \in Growths \cup {0}) { hg := gg } }
+            or     { goto hp_unreg };
+hp_chk:     call check_resize(Pow2(oi[hjob[self].par] - 1), hg);
+hp_back:    goto hp_walk;
+hp_unreg:   \* work->ht->flavor->unregister_thread(); thread exit (the exit drains the store buffer before the join returns)
+            pcov[hjob[self].par] := pcov[hjob[self].par] + hjob[self].len;
+            hjob[self].st := "done";
+            acc := Ev(self, "unreg", "-", 0, 0, 0);
+          }
+}
+
 \* ---------------------------------------------------------------- work-queue thread (workqueue_thread -> uwp->func(uwp))
 fair process (worker \in {W})
 variables cur = "";
@@ -431,7 +526,8 @@ w_fht:    htAlive := FALSE; acc := Ev(self, "htfree", "-", 0, 0, 0);
 \* BEGIN TRANSLATION
 VARIABLES pc, mem, sb, mutex, acc, alloc, gpok, gpw, gps, cs, held, wq, 
           htAlive, destroying, items, growMax, done, err, errA, rv, ra, rb, 
-          rs, osz, nsz, oi, olast, fbr, stack
+          rs, osz, nsz, oi, olast, fbr, hjob, ncreate, pnt, pk, pstart, plen, 
+          ppl, pcov, pn, pg, stack
 
 (* define statement *)
 LastIdx(t, loc) == LET S == {j \in DOMAIN sb[t] : sb[t][j][1] = loc} IN
@@ -453,15 +549,16 @@ NoUAF == \A p \in Procs : \A o \in held[p] : alloc[o] # "freed"
 NoErr == err = {} /\ errA = {}
 SBBound == \A p \in Procs : Len(sb[p]) <= SBMax
 
-VARIABLES tv, gsz, lg, lsz, lcnt, csz, cg, hsz, ksz, i, op, n, sz, g, nchk, 
-          res, cur
+VARIABLES kind, tv, gsz, lg, lsz, lcnt, csz, cg, hsz, ksz, i, op, n, sz, g, 
+          nchk, res, hn, hg, cur
 
 vars == << pc, mem, sb, mutex, acc, alloc, gpok, gpw, gps, cs, held, wq, 
            htAlive, destroying, items, growMax, done, err, errA, rv, ra, rb, 
-           rs, osz, nsz, oi, olast, fbr, stack, tv, gsz, lg, lsz, lcnt, csz, 
-           cg, hsz, ksz, i, op, n, sz, g, nchk, res, cur >>
+           rs, osz, nsz, oi, olast, fbr, hjob, ncreate, pnt, pk, pstart, plen, 
+           ppl, pcov, pn, pg, stack, kind, tv, gsz, lg, lsz, lcnt, csz, cg, 
+           hsz, ksz, i, op, n, sz, g, nchk, res, hn, hg, cur >>
 
-ProcSet == (Flushers) \cup (Threads) \cup ({W})
+ProcSet == (Flushers) \cup (Threads) \cup (Helpers) \cup ({W})
 
 Init == (* Global variables *)
         /\ mem = [l \in Locs |-> InitVal(l)]
@@ -491,6 +588,18 @@ Init == (* Global variables *)
         /\ oi = [p \in Procs |-> 0]
         /\ olast = [p \in Procs |-> 0]
         /\ fbr = [p \in Procs |-> 0]
+        /\ hjob = [h \in Helpers |-> Idle]
+        /\ ncreate = IF AutoResize THEN 1 ELSE 0
+        /\ pnt = [p \in Procs |-> 0]
+        /\ pk = [p \in Procs |-> 0]
+        /\ pstart = [p \in Procs |-> 0]
+        /\ plen = [p \in Procs |-> 0]
+        /\ ppl = [p \in Procs |-> 0]
+        /\ pcov = [p \in Procs |-> 0]
+        /\ pn = [p \in Procs |-> 0]
+        /\ pg = [p \in Procs |-> 0]
+        (* Procedure partition *)
+        /\ kind = [ self \in ProcSet |-> "pop"]
         (* Procedure target_grow *)
         /\ tv = [ self \in ProcSet |-> 0]
         (* Procedure lazy_grow *)
@@ -514,12 +623,178 @@ Init == (* Global variables *)
         /\ g = [self \in Threads |-> 0]
         /\ nchk = [self \in Threads |-> 0]
         /\ res = [self \in Threads |-> 0]
+        (* Process helper *)
+        /\ hn = [self \in Helpers |-> 0]
+        /\ hg = [self \in Helpers |-> 0]
         (* Process worker *)
         /\ cur = [self \in {W} |-> ""]
         /\ stack = [self \in ProcSet |-> << >>]
         /\ pc = [self \in ProcSet |-> CASE self \in Flushers -> "fl"
                                         [] self \in Threads -> "t_top"
+                                        [] self \in Helpers -> "hp_reg"
                                         [] self \in {W} -> "w_wait"]
+
+ph_top(self) == /\ pc[self] = "ph_top"
+                /\ pcov' = [pcov EXCEPT ![self] = 0]
+                /\ pstart' = [pstart EXCEPT ![self] = 0]
+                /\ pk' = [pk EXCEPT ![self] = 0]
+                /\ pn' = [pn EXCEPT ![self] = 0]
+                /\ plen' = [plen EXCEPT ![self] = Pow2(oi[self] - 1)]
+                /\ IF NrCpusMask < 0 \/ Pow2(oi[self] - 1) < 2 * Pow2(MPO)
+                      THEN /\ pnt' = [pnt EXCEPT ![self] = 0]
+                           /\ pc' = [pc EXCEPT ![self] = "ph_own"]
+                           /\ ppl' = ppl
+                      ELSE /\ pnt' = [pnt EXCEPT ![self] = PartThreads(Pow2(oi[self] - 1), NrCpusMask, MPO)]
+                           /\ ppl' = [ppl EXCEPT ![self] = Pow2(oi[self] - 1) \div Pow2(Order(PartThreads(Pow2(oi[self] - 1), NrCpusMask, MPO)))]
+                           /\ pc' = [pc EXCEPT ![self] = "ph_create"]
+                /\ UNCHANGED << mem, sb, mutex, acc, alloc, gpok, gpw, gps, cs, 
+                                held, wq, htAlive, destroying, items, growMax, 
+                                done, err, errA, rv, ra, rb, rs, osz, nsz, oi, 
+                                olast, fbr, hjob, ncreate, pg, stack, kind, tv, 
+                                gsz, lg, lsz, lcnt, csz, cg, hsz, ksz, i, op, 
+                                n, sz, g, nchk, res, hn, hg, cur >>
+
+ph_create(self) == /\ pc[self] = "ph_create"
+                   /\ IF pk[self] < pnt[self]
+                         THEN /\ Drained(self)
+                              /\ IF ncreate = FailAt
+                                    THEN /\ ncreate' = ncreate + 1
+                                         /\ acc' = Ev(self, "fault", "pthread_create", 0, 0, 0)
+                                         /\ pstart' = [pstart EXCEPT ![self] = pk[self] * ppl[self]]
+                                         /\ plen' = [plen EXCEPT ![self] = plen[self] - pk[self] * ppl[self]]
+                                         /\ pnt' = [pnt EXCEPT ![self] = pk[self]]
+                                         /\ pc' = [pc EXCEPT ![self] = "ph_join0"]
+                                         /\ UNCHANGED << err, hjob, pk >>
+                                    ELSE /\ ncreate' = ncreate + 1
+                                         /\ err' = (IF hjob[Slot(pk[self] + 1)].st = "idle" THEN err ELSE err \cup {"helper_slot_busy"})
+                                         /\ hjob' = [hjob EXCEPT ![Slot(pk[self] + 1)] = [st |-> "run", par |-> self, kind |-> kind[self], len |-> ppl[self]]]
+                                         /\ acc' = Ev(self, "spawn", Slot(pk[self] + 1), 0, 0, 0)
+                                         /\ pk' = [pk EXCEPT ![self] = pk[self] + 1]
+                                         /\ pc' = [pc EXCEPT ![self] = "ph_create"]
+                                         /\ UNCHANGED << pnt, pstart, plen >>
+                         ELSE /\ pc' = [pc EXCEPT ![self] = "ph_join0"]
+                              /\ UNCHANGED << acc, err, hjob, ncreate, pnt, pk, 
+                                              pstart, plen >>
+                   /\ UNCHANGED << mem, sb, mutex, alloc, gpok, gpw, gps, cs, 
+                                   held, wq, htAlive, destroying, items, 
+                                   growMax, done, errA, rv, ra, rb, rs, osz, 
+                                   nsz, oi, olast, fbr, ppl, pcov, pn, pg, 
+                                   stack, kind, tv, gsz, lg, lsz, lcnt, csz, 
+                                   cg, hsz, ksz, i, op, n, sz, g, nchk, res, 
+                                   hn, hg, cur >>
+
+ph_join0(self) == /\ pc[self] = "ph_join0"
+                  /\ pk' = [pk EXCEPT ![self] = 0]
+                  /\ pc' = [pc EXCEPT ![self] = "ph_join"]
+                  /\ UNCHANGED << mem, sb, mutex, acc, alloc, gpok, gpw, gps, 
+                                  cs, held, wq, htAlive, destroying, items, 
+                                  growMax, done, err, errA, rv, ra, rb, rs, 
+                                  osz, nsz, oi, olast, fbr, hjob, ncreate, pnt, 
+                                  pstart, plen, ppl, pcov, pn, pg, stack, kind, 
+                                  tv, gsz, lg, lsz, lcnt, csz, cg, hsz, ksz, i, 
+                                  op, n, sz, g, nchk, res, hn, hg, cur >>
+
+ph_join(self) == /\ pc[self] = "ph_join"
+                 /\ IF pk[self] < pnt[self]
+                       THEN /\ Drained(self) /\ hjob[Slot(pk[self] + 1)].st = "done" /\ sb[Slot(pk[self] + 1)] = <<>>
+                            /\ hjob' = [hjob EXCEPT ![Slot(pk[self] + 1)] = Idle]
+                            /\ acc' = Ev(self, "join", Slot(pk[self] + 1), 0, 0, 0)
+                            /\ pk' = [pk EXCEPT ![self] = pk[self] + 1]
+                            /\ pc' = [pc EXCEPT ![self] = "ph_join"]
+                       ELSE /\ pc' = [pc EXCEPT ![self] = "ph_after"]
+                            /\ UNCHANGED << acc, hjob, pk >>
+                 /\ UNCHANGED << mem, sb, mutex, alloc, gpok, gpw, gps, cs, 
+                                 held, wq, htAlive, destroying, items, growMax, 
+                                 done, err, errA, rv, ra, rb, rs, osz, nsz, oi, 
+                                 olast, fbr, ncreate, pnt, pstart, plen, ppl, 
+                                 pcov, pn, pg, stack, kind, tv, gsz, lg, lsz, 
+                                 lcnt, csz, cg, hsz, ksz, i, op, n, sz, g, 
+                                 nchk, res, hn, hg, cur >>
+
+ph_after(self) == /\ pc[self] = "ph_after"
+                  /\ IF pstart[self] = 0 /\ pnt[self] > 0
+                        THEN /\ pc' = [pc EXCEPT ![self] = "ph_done"]
+                        ELSE /\ pc' = [pc EXCEPT ![self] = "ph_own"]
+                  /\ UNCHANGED << mem, sb, mutex, acc, alloc, gpok, gpw, gps, 
+                                  cs, held, wq, htAlive, destroying, items, 
+                                  growMax, done, err, errA, rv, ra, rb, rs, 
+                                  osz, nsz, oi, olast, fbr, hjob, ncreate, pnt, 
+                                  pk, pstart, plen, ppl, pcov, pn, pg, stack, 
+                                  kind, tv, gsz, lg, lsz, lcnt, csz, cg, hsz, 
+                                  ksz, i, op, n, sz, g, nchk, res, hn, hg, cur >>
+
+ph_own(self) == /\ pc[self] = "ph_own"
+                /\ pcov' = [pcov EXCEPT ![self] = pcov[self] + plen[self]]
+                /\ pc' = [pc EXCEPT ![self] = "ph_walk"]
+                /\ UNCHANGED << mem, sb, mutex, acc, alloc, gpok, gpw, gps, cs, 
+                                held, wq, htAlive, destroying, items, growMax, 
+                                done, err, errA, rv, ra, rb, rs, osz, nsz, oi, 
+                                olast, fbr, hjob, ncreate, pnt, pk, pstart, 
+                                plen, ppl, pn, pg, stack, kind, tv, gsz, lg, 
+                                lsz, lcnt, csz, cg, hsz, ksz, i, op, n, sz, g, 
+                                nchk, res, hn, hg, cur >>
+
+ph_walk(self) == /\ pc[self] = "ph_walk"
+                 /\ \/ /\ AutoResize /\ kind[self] = "pop" /\ pn[self] < MaxChkP
+                       /\ pn' = [pn EXCEPT ![self] = pn[self] + 1]
+                       /\ \E gg \in Growths \cup {0}:
+                            pg' = [pg EXCEPT ![self] = gg]
+                       /\ pc' = [pc EXCEPT ![self] = "ph_chk"]
+                    \/ /\ pc' = [pc EXCEPT ![self] = "ph_done"]
+                       /\ UNCHANGED <<pn, pg>>
+                 /\ UNCHANGED << mem, sb, mutex, acc, alloc, gpok, gpw, gps, 
+                                 cs, held, wq, htAlive, destroying, items, 
+                                 growMax, done, err, errA, rv, ra, rb, rs, osz, 
+                                 nsz, oi, olast, fbr, hjob, ncreate, pnt, pk, 
+                                 pstart, plen, ppl, pcov, stack, kind, tv, gsz, 
+                                 lg, lsz, lcnt, csz, cg, hsz, ksz, i, op, n, 
+                                 sz, g, nchk, res, hn, hg, cur >>
+
+ph_chk(self) == /\ pc[self] = "ph_chk"
+                /\ /\ cg' = [cg EXCEPT ![self] = pg[self]]
+                   /\ csz' = [csz EXCEPT ![self] = Pow2(oi[self] - 1)]
+                   /\ stack' = [stack EXCEPT ![self] = << [ procedure |->  "check_resize",
+                                                            pc        |->  "ph_back",
+                                                            csz       |->  csz[self],
+                                                            cg        |->  cg[self] ] >>
+                                                        \o stack[self]]
+                /\ pc' = [pc EXCEPT ![self] = "cr_ld_count"]
+                /\ UNCHANGED << mem, sb, mutex, acc, alloc, gpok, gpw, gps, cs, 
+                                held, wq, htAlive, destroying, items, growMax, 
+                                done, err, errA, rv, ra, rb, rs, osz, nsz, oi, 
+                                olast, fbr, hjob, ncreate, pnt, pk, pstart, 
+                                plen, ppl, pcov, pn, pg, kind, tv, gsz, lg, 
+                                lsz, lcnt, hsz, ksz, i, op, n, sz, g, nchk, 
+                                res, hn, hg, cur >>
+
+ph_back(self) == /\ pc[self] = "ph_back"
+                 /\ pc' = [pc EXCEPT ![self] = "ph_walk"]
+                 /\ UNCHANGED << mem, sb, mutex, acc, alloc, gpok, gpw, gps, 
+                                 cs, held, wq, htAlive, destroying, items, 
+                                 growMax, done, err, errA, rv, ra, rb, rs, osz, 
+                                 nsz, oi, olast, fbr, hjob, ncreate, pnt, pk, 
+                                 pstart, plen, ppl, pcov, pn, pg, stack, kind, 
+                                 tv, gsz, lg, lsz, lcnt, csz, cg, hsz, ksz, i, 
+                                 op, n, sz, g, nchk, res, hn, hg, cur >>
+
+ph_done(self) == /\ pc[self] = "ph_done"
+                 /\ Drained(self)
+                 /\ err' = (IF pcov[self] = Pow2(oi[self] - 1) THEN err ELSE err \cup {"partition_cover"})
+                 /\ pc' = [pc EXCEPT ![self] = Head(stack[self]).pc]
+                 /\ kind' = [kind EXCEPT ![self] = Head(stack[self]).kind]
+                 /\ stack' = [stack EXCEPT ![self] = Tail(stack[self])]
+                 /\ UNCHANGED << mem, sb, mutex, acc, alloc, gpok, gpw, gps, 
+                                 cs, held, wq, htAlive, destroying, items, 
+                                 growMax, done, errA, rv, ra, rb, rs, osz, nsz, 
+                                 oi, olast, fbr, hjob, ncreate, pnt, pk, 
+                                 pstart, plen, ppl, pcov, pn, pg, tv, gsz, lg, 
+                                 lsz, lcnt, csz, cg, hsz, ksz, i, op, n, sz, g, 
+                                 nchk, res, hn, hg, cur >>
+
+partition(self) == ph_top(self) \/ ph_create(self) \/ ph_join0(self)
+                      \/ ph_join(self) \/ ph_after(self) \/ ph_own(self)
+                      \/ ph_walk(self) \/ ph_chk(self) \/ ph_back(self)
+                      \/ ph_done(self)
 
 dr_ld_ipd(self) == /\ pc[self] = "dr_ld_ipd"
                    /\ ra' = [ra EXCEPT ![self] = Rd(self, "in_progress_destroy")]
@@ -534,8 +809,10 @@ dr_ld_ipd(self) == /\ pc[self] = "dr_ld_ipd"
                    /\ UNCHANGED << mem, sb, mutex, alloc, gpok, gpw, gps, cs, 
                                    held, wq, htAlive, destroying, items, 
                                    growMax, done, rv, rb, rs, osz, nsz, oi, 
-                                   olast, fbr, tv, gsz, lg, lsz, lcnt, csz, cg, 
-                                   hsz, ksz, i, op, n, sz, g, nchk, res, cur >>
+                                   olast, fbr, hjob, ncreate, pnt, pk, pstart, 
+                                   plen, ppl, pcov, pn, pg, kind, tv, gsz, lg, 
+                                   lsz, lcnt, csz, cg, hsz, ksz, i, op, n, sz, 
+                                   g, nchk, res, hn, hg, cur >>
 
 dr_st_ri1(self) == /\ pc[self] = "dr_st_ri1"
                    /\ IF TSO
@@ -549,8 +826,10 @@ dr_st_ri1(self) == /\ pc[self] = "dr_st_ri1"
                    /\ UNCHANGED << mutex, alloc, gpok, gpw, gps, cs, held, wq, 
                                    htAlive, destroying, items, growMax, done, 
                                    err, rv, ra, rb, rs, osz, nsz, oi, olast, 
-                                   fbr, stack, tv, gsz, lg, lsz, lcnt, csz, cg, 
-                                   hsz, ksz, i, op, n, sz, g, nchk, res, cur >>
+                                   fbr, hjob, ncreate, pnt, pk, pstart, plen, 
+                                   ppl, pcov, pn, pg, stack, kind, tv, gsz, lg, 
+                                   lsz, lcnt, csz, cg, hsz, ksz, i, op, n, sz, 
+                                   g, nchk, res, hn, hg, cur >>
 
 dr_ld_tgt(self) == /\ pc[self] = "dr_ld_tgt"
                    /\ osz' = [osz EXCEPT ![self] = Rd(self, "size")]
@@ -570,9 +849,11 @@ dr_ld_tgt(self) == /\ pc[self] = "dr_ld_tgt"
                                          /\ UNCHANGED << oi, olast >>
                    /\ UNCHANGED << mem, sb, mutex, alloc, gpok, gpw, gps, cs, 
                                    held, wq, htAlive, destroying, items, 
-                                   growMax, done, err, rv, ra, rb, rs, stack, 
-                                   tv, gsz, lg, lsz, lcnt, csz, cg, hsz, ksz, 
-                                   i, op, n, sz, g, nchk, res, cur >>
+                                   growMax, done, err, rv, ra, rb, rs, hjob, 
+                                   ncreate, pnt, pk, pstart, plen, ppl, pcov, 
+                                   pn, pg, stack, kind, tv, gsz, lg, lsz, lcnt, 
+                                   csz, cg, hsz, ksz, i, op, n, sz, g, nchk, 
+                                   res, hn, hg, cur >>
 
 it_loop(self) == /\ pc[self] = "it_loop"
                  /\ IF oi[self] > olast[self]
@@ -581,9 +862,10 @@ it_loop(self) == /\ pc[self] = "it_loop"
                  /\ UNCHANGED << mem, sb, mutex, acc, alloc, gpok, gpw, gps, 
                                  cs, held, wq, htAlive, destroying, items, 
                                  growMax, done, err, errA, rv, ra, rb, rs, osz, 
-                                 nsz, oi, olast, fbr, stack, tv, gsz, lg, lsz, 
-                                 lcnt, csz, cg, hsz, ksz, i, op, n, sz, g, 
-                                 nchk, res, cur >>
+                                 nsz, oi, olast, fbr, hjob, ncreate, pnt, pk, 
+                                 pstart, plen, ppl, pcov, pn, pg, stack, kind, 
+                                 tv, gsz, lg, lsz, lcnt, csz, cg, hsz, ksz, i, 
+                                 op, n, sz, g, nchk, res, hn, hg, cur >>
 
 it_ld_tgt(self) == /\ pc[self] = "it_ld_tgt"
                    /\ ra' = [ra EXCEPT ![self] = Rd(self, "resize_target")]
@@ -595,9 +877,11 @@ it_ld_tgt(self) == /\ pc[self] = "it_ld_tgt"
                    /\ UNCHANGED << mem, sb, mutex, alloc, gpok, gpw, gps, cs, 
                                    held, wq, htAlive, destroying, items, 
                                    growMax, done, err, rv, rb, rs, osz, nsz, 
-                                   oi, olast, fbr, stack, tv, gsz, lg, lsz, 
-                                   lcnt, csz, cg, hsz, ksz, i, op, n, sz, g, 
-                                   nchk, res, cur >>
+                                   oi, olast, fbr, hjob, ncreate, pnt, pk, 
+                                   pstart, plen, ppl, pcov, pn, pg, stack, 
+                                   kind, tv, gsz, lg, lsz, lcnt, csz, cg, hsz, 
+                                   ksz, i, op, n, sz, g, nchk, res, hn, hg, 
+                                   cur >>
 
 it_alloc(self) == /\ pc[self] = "it_alloc"
                   /\ IF "pub_first" \in Mut
@@ -610,17 +894,25 @@ it_alloc(self) == /\ pc[self] = "it_alloc"
                   /\ UNCHANGED << mem, sb, mutex, gpok, gpw, gps, cs, held, wq, 
                                   htAlive, destroying, items, growMax, done, 
                                   errA, rv, ra, rb, rs, osz, nsz, oi, olast, 
-                                  fbr, stack, tv, gsz, lg, lsz, lcnt, csz, cg, 
-                                  hsz, ksz, i, op, n, sz, g, nchk, res, cur >>
+                                  fbr, hjob, ncreate, pnt, pk, pstart, plen, 
+                                  ppl, pcov, pn, pg, stack, kind, tv, gsz, lg, 
+                                  lsz, lcnt, csz, cg, hsz, ksz, i, op, n, sz, 
+                                  g, nchk, res, hn, hg, cur >>
 
 it_pop(self) == /\ pc[self] = "it_pop"
-                /\ Drained(self)
-                /\ pc' = [pc EXCEPT ![self] = "it_st_size"]
+                /\ /\ kind' = [kind EXCEPT ![self] = "pop"]
+                   /\ stack' = [stack EXCEPT ![self] = << [ procedure |->  "partition",
+                                                            pc        |->  "it_st_size",
+                                                            kind      |->  kind[self] ] >>
+                                                        \o stack[self]]
+                /\ pc' = [pc EXCEPT ![self] = "ph_top"]
                 /\ UNCHANGED << mem, sb, mutex, acc, alloc, gpok, gpw, gps, cs, 
                                 held, wq, htAlive, destroying, items, growMax, 
                                 done, err, errA, rv, ra, rb, rs, osz, nsz, oi, 
-                                olast, fbr, stack, tv, gsz, lg, lsz, lcnt, csz, 
-                                cg, hsz, ksz, i, op, n, sz, g, nchk, res, cur >>
+                                olast, fbr, hjob, ncreate, pnt, pk, pstart, 
+                                plen, ppl, pcov, pn, pg, tv, gsz, lg, lsz, 
+                                lcnt, csz, cg, hsz, ksz, i, op, n, sz, g, nchk, 
+                                res, hn, hg, cur >>
 
 it_st_size(self) == /\ pc[self] = "it_st_size"
                     /\ IF TSO
@@ -638,9 +930,10 @@ it_st_size(self) == /\ pc[self] = "it_st_size"
                     /\ UNCHANGED << mutex, gpok, gpw, gps, cs, held, wq, 
                                     htAlive, destroying, items, growMax, done, 
                                     err, rv, ra, rb, rs, osz, nsz, oi, olast, 
-                                    fbr, stack, tv, gsz, lg, lsz, lcnt, csz, 
-                                    cg, hsz, ksz, i, op, n, sz, g, nchk, res, 
-                                    cur >>
+                                    fbr, hjob, ncreate, pnt, pk, pstart, plen, 
+                                    ppl, pcov, pn, pg, stack, kind, tv, gsz, 
+                                    lg, lsz, lcnt, csz, cg, hsz, ksz, i, op, n, 
+                                    sz, g, nchk, res, hn, hg, cur >>
 
 it_ld_ipd(self) == /\ pc[self] = "it_ld_ipd"
                    /\ ra' = [ra EXCEPT ![self] = Rd(self, "in_progress_destroy")]
@@ -653,9 +946,10 @@ it_ld_ipd(self) == /\ pc[self] = "it_ld_ipd"
                    /\ UNCHANGED << mem, sb, mutex, alloc, gpok, gpw, gps, cs, 
                                    held, wq, htAlive, destroying, items, 
                                    growMax, done, err, rv, rb, rs, osz, nsz, 
-                                   olast, fbr, stack, tv, gsz, lg, lsz, lcnt, 
-                                   csz, cg, hsz, ksz, i, op, n, sz, g, nchk, 
-                                   res, cur >>
+                                   olast, fbr, hjob, ncreate, pnt, pk, pstart, 
+                                   plen, ppl, pcov, pn, pg, stack, kind, tv, 
+                                   gsz, lg, lsz, lcnt, csz, cg, hsz, ksz, i, 
+                                   op, n, sz, g, nchk, res, hn, hg, cur >>
 
 it_alloc2(self) == /\ pc[self] = "it_alloc2"
                    /\ alloc' = [alloc EXCEPT ![oi[self]] = "published"]
@@ -664,9 +958,11 @@ it_alloc2(self) == /\ pc[self] = "it_alloc2"
                    /\ UNCHANGED << mem, sb, mutex, gpok, gpw, gps, cs, held, 
                                    wq, htAlive, destroying, items, growMax, 
                                    done, err, errA, rv, ra, rb, rs, osz, nsz, 
-                                   oi, olast, fbr, stack, tv, gsz, lg, lsz, 
-                                   lcnt, csz, cg, hsz, ksz, i, op, n, sz, g, 
-                                   nchk, res, cur >>
+                                   oi, olast, fbr, hjob, ncreate, pnt, pk, 
+                                   pstart, plen, ppl, pcov, pn, pg, stack, 
+                                   kind, tv, gsz, lg, lsz, lcnt, csz, cg, hsz, 
+                                   ksz, i, op, n, sz, g, nchk, res, hn, hg, 
+                                   cur >>
 
 ft_loop(self) == /\ pc[self] = "ft_loop"
                  /\ IF oi[self] < olast[self]
@@ -675,9 +971,10 @@ ft_loop(self) == /\ pc[self] = "ft_loop"
                  /\ UNCHANGED << mem, sb, mutex, acc, alloc, gpok, gpw, gps, 
                                  cs, held, wq, htAlive, destroying, items, 
                                  growMax, done, err, errA, rv, ra, rb, rs, osz, 
-                                 nsz, oi, olast, fbr, stack, tv, gsz, lg, lsz, 
-                                 lcnt, csz, cg, hsz, ksz, i, op, n, sz, g, 
-                                 nchk, res, cur >>
+                                 nsz, oi, olast, fbr, hjob, ncreate, pnt, pk, 
+                                 pstart, plen, ppl, pcov, pn, pg, stack, kind, 
+                                 tv, gsz, lg, lsz, lcnt, csz, cg, hsz, ksz, i, 
+                                 op, n, sz, g, nchk, res, hn, hg, cur >>
 
 ft_ld_tgt(self) == /\ pc[self] = "ft_ld_tgt"
                    /\ ra' = [ra EXCEPT ![self] = Rd(self, "resize_target")]
@@ -689,9 +986,11 @@ ft_ld_tgt(self) == /\ pc[self] = "ft_ld_tgt"
                    /\ UNCHANGED << mem, sb, mutex, alloc, gpok, gpw, gps, cs, 
                                    held, wq, htAlive, destroying, items, 
                                    growMax, done, err, rv, rb, rs, osz, nsz, 
-                                   oi, olast, fbr, stack, tv, gsz, lg, lsz, 
-                                   lcnt, csz, cg, hsz, ksz, i, op, n, sz, g, 
-                                   nchk, res, cur >>
+                                   oi, olast, fbr, hjob, ncreate, pnt, pk, 
+                                   pstart, plen, ppl, pcov, pn, pg, stack, 
+                                   kind, tv, gsz, lg, lsz, lcnt, csz, cg, hsz, 
+                                   ksz, i, op, n, sz, g, nchk, res, hn, hg, 
+                                   cur >>
 
 ft_st_size(self) == /\ pc[self] = "ft_st_size"
                     /\ IF TSO
@@ -705,16 +1004,16 @@ ft_st_size(self) == /\ pc[self] = "ft_st_size"
                     /\ UNCHANGED << mutex, alloc, gpok, gpw, gps, cs, held, wq, 
                                     htAlive, destroying, items, growMax, done, 
                                     err, rv, ra, rb, rs, osz, nsz, oi, olast, 
-                                    fbr, stack, tv, gsz, lg, lsz, lcnt, csz, 
-                                    cg, hsz, ksz, i, op, n, sz, g, nchk, res, 
-                                    cur >>
+                                    fbr, hjob, ncreate, pnt, pk, pstart, plen, 
+                                    ppl, pcov, pn, pg, stack, kind, tv, gsz, 
+                                    lg, lsz, lcnt, csz, cg, hsz, ksz, i, op, n, 
+                                    sz, g, nchk, res, hn, hg, cur >>
 
 ft_gp1_b(self) == /\ pc[self] = "ft_gp1_b"
                   /\ IF "no_gp" \in Mut
                         THEN /\ pc' = [pc EXCEPT ![self] = "ft_free1"]
                              /\ UNCHANGED << acc, gpw, gps, err >>
-                        ELSE /\ Drained(self)
-                             /\ gpw' = [gpw EXCEPT ![self] = {p \in Procs \ {self} : cs[p]}]
+                        ELSE /\ gpw' = [gpw EXCEPT ![self] = {p \in Procs \ {self} : cs[p]}]
                              /\ gps' = [gps EXCEPT ![self] = {o \in Orders : alloc[o] = "unlinked"}]
                              /\ err' = (IF cs[self] THEN err \cup {"gp_in_cs"} ELSE err)
                              /\ acc' = Ev(self, "gp_begin", "-", 0, 0, 0)
@@ -722,20 +1021,23 @@ ft_gp1_b(self) == /\ pc[self] = "ft_gp1_b"
                   /\ UNCHANGED << mem, sb, mutex, alloc, gpok, cs, held, wq, 
                                   htAlive, destroying, items, growMax, done, 
                                   errA, rv, ra, rb, rs, osz, nsz, oi, olast, 
-                                  fbr, stack, tv, gsz, lg, lsz, lcnt, csz, cg, 
-                                  hsz, ksz, i, op, n, sz, g, nchk, res, cur >>
+                                  fbr, hjob, ncreate, pnt, pk, pstart, plen, 
+                                  ppl, pcov, pn, pg, stack, kind, tv, gsz, lg, 
+                                  lsz, lcnt, csz, cg, hsz, ksz, i, op, n, sz, 
+                                  g, nchk, res, hn, hg, cur >>
 
 ft_gp1_e(self) == /\ pc[self] = "ft_gp1_e"
-                  /\ gpw[self] = {}
+                  /\ Drained(self) /\ gpw[self] = {}
                   /\ gpok' = (gpok \cup gps[self])
                   /\ acc' = Ev(self, "gp_end", "-", 0, 0, 0)
                   /\ pc' = [pc EXCEPT ![self] = "ft_free1"]
                   /\ UNCHANGED << mem, sb, mutex, alloc, gpw, gps, cs, held, 
                                   wq, htAlive, destroying, items, growMax, 
                                   done, err, errA, rv, ra, rb, rs, osz, nsz, 
-                                  oi, olast, fbr, stack, tv, gsz, lg, lsz, 
-                                  lcnt, csz, cg, hsz, ksz, i, op, n, sz, g, 
-                                  nchk, res, cur >>
+                                  oi, olast, fbr, hjob, ncreate, pnt, pk, 
+                                  pstart, plen, ppl, pcov, pn, pg, stack, kind, 
+                                  tv, gsz, lg, lsz, lcnt, csz, cg, hsz, ksz, i, 
+                                  op, n, sz, g, nchk, res, hn, hg, cur >>
 
 ft_free1(self) == /\ pc[self] = "ft_free1"
                   /\ IF fbr[self] # 0
@@ -751,21 +1053,39 @@ ft_free1(self) == /\ pc[self] = "ft_free1"
                   /\ UNCHANGED << mem, sb, mutex, gpw, gps, cs, held, wq, 
                                   htAlive, destroying, items, growMax, done, 
                                   errA, rv, ra, rb, rs, osz, nsz, oi, olast, 
-                                  fbr, stack, tv, gsz, lg, lsz, lcnt, csz, cg, 
-                                  hsz, ksz, i, op, n, sz, g, nchk, res, cur >>
+                                  fbr, hjob, ncreate, pnt, pk, pstart, plen, 
+                                  ppl, pcov, pn, pg, stack, kind, tv, gsz, lg, 
+                                  lsz, lcnt, csz, cg, hsz, ksz, i, op, n, sz, 
+                                  g, nchk, res, hn, hg, cur >>
 
 ft_remove(self) == /\ pc[self] = "ft_remove"
-                   /\ Drained(self)
-                   /\ err' = (IF alloc[oi[self]] = "published" THEN err ELSE err \cup {"unlink_not_published"})
-                   /\ alloc' = [alloc EXCEPT ![oi[self]] = "unlinked"]
-                   /\ gpok' = gpok \ {oi[self]}
-                   /\ fbr' = [fbr EXCEPT ![self] = oi[self]]
-                   /\ pc' = [pc EXCEPT ![self] = "ft_ld_ipd"]
-                   /\ UNCHANGED << mem, sb, mutex, acc, gpw, gps, cs, held, wq, 
-                                   htAlive, destroying, items, growMax, done, 
-                                   errA, rv, ra, rb, rs, osz, nsz, oi, olast, 
-                                   stack, tv, gsz, lg, lsz, lcnt, csz, cg, hsz, 
-                                   ksz, i, op, n, sz, g, nchk, res, cur >>
+                   /\ /\ kind' = [kind EXCEPT ![self] = "rem"]
+                      /\ stack' = [stack EXCEPT ![self] = << [ procedure |->  "partition",
+                                                               pc        |->  "ft_unlnk",
+                                                               kind      |->  kind[self] ] >>
+                                                           \o stack[self]]
+                   /\ pc' = [pc EXCEPT ![self] = "ph_top"]
+                   /\ UNCHANGED << mem, sb, mutex, acc, alloc, gpok, gpw, gps, 
+                                   cs, held, wq, htAlive, destroying, items, 
+                                   growMax, done, err, errA, rv, ra, rb, rs, 
+                                   osz, nsz, oi, olast, fbr, hjob, ncreate, 
+                                   pnt, pk, pstart, plen, ppl, pcov, pn, pg, 
+                                   tv, gsz, lg, lsz, lcnt, csz, cg, hsz, ksz, 
+                                   i, op, n, sz, g, nchk, res, hn, hg, cur >>
+
+ft_unlnk(self) == /\ pc[self] = "ft_unlnk"
+                  /\ err' = (IF alloc[oi[self]] = "published" THEN err ELSE err \cup {"unlink_not_published"})
+                  /\ alloc' = [alloc EXCEPT ![oi[self]] = "unlinked"]
+                  /\ gpok' = gpok \ {oi[self]}
+                  /\ fbr' = [fbr EXCEPT ![self] = oi[self]]
+                  /\ pc' = [pc EXCEPT ![self] = "ft_ld_ipd"]
+                  /\ UNCHANGED << mem, sb, mutex, acc, gpw, gps, cs, held, wq, 
+                                  htAlive, destroying, items, growMax, done, 
+                                  errA, rv, ra, rb, rs, osz, nsz, oi, olast, 
+                                  hjob, ncreate, pnt, pk, pstart, plen, ppl, 
+                                  pcov, pn, pg, stack, kind, tv, gsz, lg, lsz, 
+                                  lcnt, csz, cg, hsz, ksz, i, op, n, sz, g, 
+                                  nchk, res, hn, hg, cur >>
 
 ft_ld_ipd(self) == /\ pc[self] = "ft_ld_ipd"
                    /\ ra' = [ra EXCEPT ![self] = Rd(self, "in_progress_destroy")]
@@ -778,9 +1098,10 @@ ft_ld_ipd(self) == /\ pc[self] = "ft_ld_ipd"
                    /\ UNCHANGED << mem, sb, mutex, alloc, gpok, gpw, gps, cs, 
                                    held, wq, htAlive, destroying, items, 
                                    growMax, done, err, rv, rb, rs, osz, nsz, 
-                                   olast, fbr, stack, tv, gsz, lg, lsz, lcnt, 
-                                   csz, cg, hsz, ksz, i, op, n, sz, g, nchk, 
-                                   res, cur >>
+                                   olast, fbr, hjob, ncreate, pnt, pk, pstart, 
+                                   plen, ppl, pcov, pn, pg, stack, kind, tv, 
+                                   gsz, lg, lsz, lcnt, csz, cg, hsz, ksz, i, 
+                                   op, n, sz, g, nchk, res, hn, hg, cur >>
 
 ft_end(self) == /\ pc[self] = "ft_end"
                 /\ IF fbr[self] = 0
@@ -789,15 +1110,16 @@ ft_end(self) == /\ pc[self] = "ft_end"
                 /\ UNCHANGED << mem, sb, mutex, acc, alloc, gpok, gpw, gps, cs, 
                                 held, wq, htAlive, destroying, items, growMax, 
                                 done, err, errA, rv, ra, rb, rs, osz, nsz, oi, 
-                                olast, fbr, stack, tv, gsz, lg, lsz, lcnt, csz, 
-                                cg, hsz, ksz, i, op, n, sz, g, nchk, res, cur >>
+                                olast, fbr, hjob, ncreate, pnt, pk, pstart, 
+                                plen, ppl, pcov, pn, pg, stack, kind, tv, gsz, 
+                                lg, lsz, lcnt, csz, cg, hsz, ksz, i, op, n, sz, 
+                                g, nchk, res, hn, hg, cur >>
 
 ft_gp2_b(self) == /\ pc[self] = "ft_gp2_b"
                   /\ IF "no_gp" \in Mut
                         THEN /\ pc' = [pc EXCEPT ![self] = "ft_free2"]
                              /\ UNCHANGED << acc, gpw, gps, err >>
-                        ELSE /\ Drained(self)
-                             /\ gpw' = [gpw EXCEPT ![self] = {p \in Procs \ {self} : cs[p]}]
+                        ELSE /\ gpw' = [gpw EXCEPT ![self] = {p \in Procs \ {self} : cs[p]}]
                              /\ gps' = [gps EXCEPT ![self] = {o \in Orders : alloc[o] = "unlinked"}]
                              /\ err' = (IF cs[self] THEN err \cup {"gp_in_cs"} ELSE err)
                              /\ acc' = Ev(self, "gp_begin", "-", 0, 0, 0)
@@ -805,20 +1127,23 @@ ft_gp2_b(self) == /\ pc[self] = "ft_gp2_b"
                   /\ UNCHANGED << mem, sb, mutex, alloc, gpok, cs, held, wq, 
                                   htAlive, destroying, items, growMax, done, 
                                   errA, rv, ra, rb, rs, osz, nsz, oi, olast, 
-                                  fbr, stack, tv, gsz, lg, lsz, lcnt, csz, cg, 
-                                  hsz, ksz, i, op, n, sz, g, nchk, res, cur >>
+                                  fbr, hjob, ncreate, pnt, pk, pstart, plen, 
+                                  ppl, pcov, pn, pg, stack, kind, tv, gsz, lg, 
+                                  lsz, lcnt, csz, cg, hsz, ksz, i, op, n, sz, 
+                                  g, nchk, res, hn, hg, cur >>
 
 ft_gp2_e(self) == /\ pc[self] = "ft_gp2_e"
-                  /\ gpw[self] = {}
+                  /\ Drained(self) /\ gpw[self] = {}
                   /\ gpok' = (gpok \cup gps[self])
                   /\ acc' = Ev(self, "gp_end", "-", 0, 0, 0)
                   /\ pc' = [pc EXCEPT ![self] = "ft_free2"]
                   /\ UNCHANGED << mem, sb, mutex, alloc, gpw, gps, cs, held, 
                                   wq, htAlive, destroying, items, growMax, 
                                   done, err, errA, rv, ra, rb, rs, osz, nsz, 
-                                  oi, olast, fbr, stack, tv, gsz, lg, lsz, 
-                                  lcnt, csz, cg, hsz, ksz, i, op, n, sz, g, 
-                                  nchk, res, cur >>
+                                  oi, olast, fbr, hjob, ncreate, pnt, pk, 
+                                  pstart, plen, ppl, pcov, pn, pg, stack, kind, 
+                                  tv, gsz, lg, lsz, lcnt, csz, cg, hsz, ksz, i, 
+                                  op, n, sz, g, nchk, res, hn, hg, cur >>
 
 ft_free2(self) == /\ pc[self] = "ft_free2"
                   /\ err' = (err \cup (IF alloc[(fbr[self])] = "unlinked" THEN {} ELSE {"free_not_unlinked"})
@@ -831,8 +1156,10 @@ ft_free2(self) == /\ pc[self] = "ft_free2"
                   /\ UNCHANGED << mem, sb, mutex, gpw, gps, cs, held, wq, 
                                   htAlive, destroying, items, growMax, done, 
                                   errA, rv, ra, rb, rs, osz, nsz, oi, olast, 
-                                  fbr, stack, tv, gsz, lg, lsz, lcnt, csz, cg, 
-                                  hsz, ksz, i, op, n, sz, g, nchk, res, cur >>
+                                  fbr, hjob, ncreate, pnt, pk, pstart, plen, 
+                                  ppl, pcov, pn, pg, stack, kind, tv, gsz, lg, 
+                                  lsz, lcnt, csz, cg, hsz, ksz, i, op, n, sz, 
+                                  g, nchk, res, hn, hg, cur >>
 
 dr_st_ri0(self) == /\ pc[self] = "dr_st_ri0"
                    /\ IF TSO
@@ -846,8 +1173,10 @@ dr_st_ri0(self) == /\ pc[self] = "dr_st_ri0"
                    /\ UNCHANGED << mutex, alloc, gpok, gpw, gps, cs, held, wq, 
                                    htAlive, destroying, items, growMax, done, 
                                    err, rv, ra, rb, rs, osz, nsz, oi, olast, 
-                                   fbr, stack, tv, gsz, lg, lsz, lcnt, csz, cg, 
-                                   hsz, ksz, i, op, n, sz, g, nchk, res, cur >>
+                                   fbr, hjob, ncreate, pnt, pk, pstart, plen, 
+                                   ppl, pcov, pn, pg, stack, kind, tv, gsz, lg, 
+                                   lsz, lcnt, csz, cg, hsz, ksz, i, op, n, sz, 
+                                   g, nchk, res, hn, hg, cur >>
 
 dr_mb(self) == /\ pc[self] = "dr_mb"
                /\ IF "no_mb" \notin Mut
@@ -859,8 +1188,10 @@ dr_mb(self) == /\ pc[self] = "dr_mb"
                /\ UNCHANGED << mem, sb, mutex, alloc, gpok, gpw, gps, cs, held, 
                                wq, htAlive, destroying, items, growMax, done, 
                                err, errA, rv, ra, rb, rs, osz, nsz, oi, olast, 
-                               fbr, stack, tv, gsz, lg, lsz, lcnt, csz, cg, 
-                               hsz, ksz, i, op, n, sz, g, nchk, res, cur >>
+                               fbr, hjob, ncreate, pnt, pk, pstart, plen, ppl, 
+                               pcov, pn, pg, stack, kind, tv, gsz, lg, lsz, 
+                               lcnt, csz, cg, hsz, ksz, i, op, n, sz, g, nchk, 
+                               res, hn, hg, cur >>
 
 dr_ld_tgt2(self) == /\ pc[self] = "dr_ld_tgt2"
                     /\ ra' = [ra EXCEPT ![self] = Rd(self, "resize_target")]
@@ -874,9 +1205,10 @@ dr_ld_tgt2(self) == /\ pc[self] = "dr_ld_tgt2"
                     /\ UNCHANGED << mem, sb, mutex, alloc, gpok, gpw, gps, cs, 
                                     held, wq, htAlive, destroying, items, 
                                     growMax, done, err, rv, rb, rs, osz, nsz, 
-                                    oi, olast, fbr, tv, gsz, lg, lsz, lcnt, 
-                                    csz, cg, hsz, ksz, i, op, n, sz, g, nchk, 
-                                    res, cur >>
+                                    oi, olast, fbr, hjob, ncreate, pnt, pk, 
+                                    pstart, plen, ppl, pcov, pn, pg, kind, tv, 
+                                    gsz, lg, lsz, lcnt, csz, cg, hsz, ksz, i, 
+                                    op, n, sz, g, nchk, res, hn, hg, cur >>
 
 do_resize(self) == dr_ld_ipd(self) \/ dr_st_ri1(self) \/ dr_ld_tgt(self)
                       \/ it_loop(self) \/ it_ld_tgt(self) \/ it_alloc(self)
@@ -885,8 +1217,9 @@ do_resize(self) == dr_ld_ipd(self) \/ dr_st_ri1(self) \/ dr_ld_tgt(self)
                       \/ ft_loop(self) \/ ft_ld_tgt(self)
                       \/ ft_st_size(self) \/ ft_gp1_b(self)
                       \/ ft_gp1_e(self) \/ ft_free1(self)
-                      \/ ft_remove(self) \/ ft_ld_ipd(self) \/ ft_end(self)
-                      \/ ft_gp2_b(self) \/ ft_gp2_e(self) \/ ft_free2(self)
+                      \/ ft_remove(self) \/ ft_unlnk(self)
+                      \/ ft_ld_ipd(self) \/ ft_end(self) \/ ft_gp2_b(self)
+                      \/ ft_gp2_e(self) \/ ft_free2(self)
                       \/ dr_st_ri0(self) \/ dr_mb(self) \/ dr_ld_tgt2(self)
 
 tg_ld(self) == /\ pc[self] = "tg_ld"
@@ -898,9 +1231,11 @@ tg_ld(self) == /\ pc[self] = "tg_ld"
                      ELSE /\ pc' = [pc EXCEPT ![self] = "tg_cas"]
                /\ UNCHANGED << mem, sb, mutex, alloc, gpok, gpw, gps, cs, held, 
                                wq, htAlive, destroying, items, growMax, done, 
-                               err, rv, rb, rs, osz, nsz, oi, olast, fbr, 
-                               stack, tv, gsz, lg, lsz, lcnt, csz, cg, hsz, 
-                               ksz, i, op, n, sz, g, nchk, res, cur >>
+                               err, rv, rb, rs, osz, nsz, oi, olast, fbr, hjob, 
+                               ncreate, pnt, pk, pstart, plen, ppl, pcov, pn, 
+                               pg, stack, kind, tv, gsz, lg, lsz, lcnt, csz, 
+                               cg, hsz, ksz, i, op, n, sz, g, nchk, res, hn, 
+                               hg, cur >>
 
 tg_mb(self) == /\ pc[self] = "tg_mb"
                /\ Drained(self)
@@ -912,9 +1247,10 @@ tg_mb(self) == /\ pc[self] = "tg_mb"
                /\ stack' = [stack EXCEPT ![self] = Tail(stack[self])]
                /\ UNCHANGED << mem, sb, mutex, alloc, gpok, gpw, gps, cs, held, 
                                wq, htAlive, destroying, items, done, err, errA, 
-                               ra, rb, rs, osz, nsz, oi, olast, fbr, gsz, lg, 
-                               lsz, lcnt, csz, cg, hsz, ksz, i, op, n, sz, g, 
-                               nchk, res, cur >>
+                               ra, rb, rs, osz, nsz, oi, olast, fbr, hjob, 
+                               ncreate, pnt, pk, pstart, plen, ppl, pcov, pn, 
+                               pg, kind, gsz, lg, lsz, lcnt, csz, cg, hsz, ksz, 
+                               i, op, n, sz, g, nchk, res, hn, hg, cur >>
 
 tg_cas(self) == /\ pc[self] = "tg_cas"
                 /\ Drained(self)
@@ -939,8 +1275,10 @@ tg_cas(self) == /\ pc[self] = "tg_cas"
                            /\ UNCHANGED << growMax, rv, stack, tv >>
                 /\ UNCHANGED << sb, mutex, alloc, gpok, gpw, gps, cs, held, wq, 
                                 htAlive, destroying, items, done, err, rs, osz, 
-                                nsz, oi, olast, fbr, gsz, lg, lsz, lcnt, csz, 
-                                cg, hsz, ksz, i, op, n, sz, g, nchk, res, cur >>
+                                nsz, oi, olast, fbr, hjob, ncreate, pnt, pk, 
+                                pstart, plen, ppl, pcov, pn, pg, kind, gsz, lg, 
+                                lsz, lcnt, csz, cg, hsz, ksz, i, op, n, sz, g, 
+                                nchk, res, hn, hg, cur >>
 
 target_grow(self) == tg_ld(self) \/ tg_mb(self) \/ tg_cas(self)
 
@@ -956,8 +1294,10 @@ ll_ld_ri(self) == /\ pc[self] = "ll_ld_ri"
                   /\ UNCHANGED << mem, sb, mutex, alloc, gpok, gpw, gps, cs, 
                                   held, wq, htAlive, destroying, items, 
                                   growMax, done, err, rv, rb, rs, osz, nsz, oi, 
-                                  olast, fbr, tv, gsz, lg, lsz, lcnt, csz, cg, 
-                                  hsz, ksz, i, op, n, sz, g, nchk, res, cur >>
+                                  olast, fbr, hjob, ncreate, pnt, pk, pstart, 
+                                  plen, ppl, pcov, pn, pg, kind, tv, gsz, lg, 
+                                  lsz, lcnt, csz, cg, hsz, ksz, i, op, n, sz, 
+                                  g, nchk, res, hn, hg, cur >>
 
 ll_ld_ipd(self) == /\ pc[self] = "ll_ld_ipd"
                    /\ IF "no_ipd" \in Mut
@@ -975,9 +1315,10 @@ ll_ld_ipd(self) == /\ pc[self] = "ll_ld_ipd"
                    /\ UNCHANGED << mem, sb, mutex, alloc, gpok, gpw, gps, cs, 
                                    held, wq, htAlive, destroying, items, 
                                    growMax, done, err, rv, rb, rs, osz, nsz, 
-                                   oi, olast, fbr, tv, gsz, lg, lsz, lcnt, csz, 
-                                   cg, hsz, ksz, i, op, n, sz, g, nchk, res, 
-                                   cur >>
+                                   oi, olast, fbr, hjob, ncreate, pnt, pk, 
+                                   pstart, plen, ppl, pcov, pn, pg, kind, tv, 
+                                   gsz, lg, lsz, lcnt, csz, cg, hsz, ksz, i, 
+                                   op, n, sz, g, nchk, res, hn, hg, cur >>
 
 ll_walloc(self) == /\ pc[self] = "ll_walloc"
                    /\ acc' = Ev(self, "walloc", "rw", 0, 0, 0)
@@ -986,9 +1327,11 @@ ll_walloc(self) == /\ pc[self] = "ll_walloc"
                    /\ UNCHANGED << mem, sb, mutex, alloc, gpok, gpw, gps, cs, 
                                    held, wq, htAlive, destroying, items, 
                                    growMax, done, err, rv, ra, rb, rs, osz, 
-                                   nsz, oi, olast, fbr, stack, tv, gsz, lg, 
-                                   lsz, lcnt, csz, cg, hsz, ksz, i, op, n, sz, 
-                                   g, nchk, res, cur >>
+                                   nsz, oi, olast, fbr, hjob, ncreate, pnt, pk, 
+                                   pstart, plen, ppl, pcov, pn, pg, stack, 
+                                   kind, tv, gsz, lg, lsz, lcnt, csz, cg, hsz, 
+                                   ksz, i, op, n, sz, g, nchk, res, hn, hg, 
+                                   cur >>
 
 ll_queue(self) == /\ pc[self] = "ll_queue"
                   /\ Drained(self)
@@ -998,9 +1341,10 @@ ll_queue(self) == /\ pc[self] = "ll_queue"
                   /\ UNCHANGED << mem, sb, mutex, alloc, gpok, gpw, gps, cs, 
                                   held, htAlive, destroying, items, growMax, 
                                   done, err, errA, rv, ra, rb, rs, osz, nsz, 
-                                  oi, olast, fbr, stack, tv, gsz, lg, lsz, 
-                                  lcnt, csz, cg, hsz, ksz, i, op, n, sz, g, 
-                                  nchk, res, cur >>
+                                  oi, olast, fbr, hjob, ncreate, pnt, pk, 
+                                  pstart, plen, ppl, pcov, pn, pg, stack, kind, 
+                                  tv, gsz, lg, lsz, lcnt, csz, cg, hsz, ksz, i, 
+                                  op, n, sz, g, nchk, res, hn, hg, cur >>
 
 ll_st_ri(self) == /\ pc[self] = "ll_st_ri"
                   /\ IF TSO
@@ -1015,8 +1359,10 @@ ll_st_ri(self) == /\ pc[self] = "ll_st_ri"
                   /\ UNCHANGED << mutex, alloc, gpok, gpw, gps, cs, held, wq, 
                                   htAlive, destroying, items, growMax, done, 
                                   err, rv, ra, rb, rs, osz, nsz, oi, olast, 
-                                  fbr, tv, gsz, lg, lsz, lcnt, csz, cg, hsz, 
-                                  ksz, i, op, n, sz, g, nchk, res, cur >>
+                                  fbr, hjob, ncreate, pnt, pk, pstart, plen, 
+                                  ppl, pcov, pn, pg, kind, tv, gsz, lg, lsz, 
+                                  lcnt, csz, cg, hsz, ksz, i, op, n, sz, g, 
+                                  nchk, res, hn, hg, cur >>
 
 lazy_launch(self) == ll_ld_ri(self) \/ ll_ld_ipd(self) \/ ll_walloc(self)
                         \/ ll_queue(self) \/ ll_st_ri(self)
@@ -1031,8 +1377,10 @@ lg_tg(self) == /\ pc[self] = "lg_tg"
                /\ UNCHANGED << mem, sb, mutex, acc, alloc, gpok, gpw, gps, cs, 
                                held, wq, htAlive, destroying, items, growMax, 
                                done, err, errA, rv, ra, rb, rs, osz, nsz, oi, 
-                               olast, fbr, gsz, lg, lsz, lcnt, csz, cg, hsz, 
-                               ksz, i, op, n, sz, g, nchk, res, cur >>
+                               olast, fbr, hjob, ncreate, pnt, pk, pstart, 
+                               plen, ppl, pcov, pn, pg, kind, gsz, lg, lsz, 
+                               lcnt, csz, cg, hsz, ksz, i, op, n, sz, g, nchk, 
+                               res, hn, hg, cur >>
 
 lg_chk(self) == /\ pc[self] = "lg_chk"
                 /\ IF rv[self] >= Min2(gsz[self] * Pow2(lg[self]), MaxB)
@@ -1048,8 +1396,10 @@ lg_chk(self) == /\ pc[self] = "lg_chk"
                 /\ UNCHANGED << mem, sb, mutex, acc, alloc, gpok, gpw, gps, cs, 
                                 held, wq, htAlive, destroying, items, growMax, 
                                 done, err, errA, rv, ra, rb, rs, osz, nsz, oi, 
-                                olast, fbr, tv, lsz, lcnt, csz, cg, hsz, ksz, 
-                                i, op, n, sz, g, nchk, res, cur >>
+                                olast, fbr, hjob, ncreate, pnt, pk, pstart, 
+                                plen, ppl, pcov, pn, pg, kind, tv, lsz, lcnt, 
+                                csz, cg, hsz, ksz, i, op, n, sz, g, nchk, res, 
+                                hn, hg, cur >>
 
 lazy_grow(self) == lg_tg(self) \/ lg_chk(self)
 
@@ -1072,8 +1422,10 @@ lc_top(self) == /\ pc[self] = "lc_top"
                 /\ UNCHANGED << mem, sb, mutex, acc, alloc, gpok, gpw, gps, cs, 
                                 held, wq, htAlive, destroying, items, growMax, 
                                 done, err, errA, rv, ra, rb, osz, nsz, oi, 
-                                olast, fbr, tv, gsz, lg, csz, cg, hsz, ksz, i, 
-                                op, n, sz, g, nchk, res, cur >>
+                                olast, fbr, hjob, ncreate, pnt, pk, pstart, 
+                                plen, ppl, pcov, pn, pg, kind, tv, gsz, lg, 
+                                csz, cg, hsz, ksz, i, op, n, sz, g, nchk, res, 
+                                hn, hg, cur >>
 
 lc_grow(self) == /\ pc[self] = "lc_grow"
                  /\ /\ stack' = [stack EXCEPT ![self] = << [ procedure |->  "target_grow",
@@ -1085,8 +1437,10 @@ lc_grow(self) == /\ pc[self] = "lc_grow"
                  /\ UNCHANGED << mem, sb, mutex, acc, alloc, gpok, gpw, gps, 
                                  cs, held, wq, htAlive, destroying, items, 
                                  growMax, done, err, errA, rv, ra, rb, rs, osz, 
-                                 nsz, oi, olast, fbr, gsz, lg, lsz, lcnt, csz, 
-                                 cg, hsz, ksz, i, op, n, sz, g, nchk, res, cur >>
+                                 nsz, oi, olast, fbr, hjob, ncreate, pnt, pk, 
+                                 pstart, plen, ppl, pcov, pn, pg, kind, gsz, 
+                                 lg, lsz, lcnt, csz, cg, hsz, ksz, i, op, n, 
+                                 sz, g, nchk, res, hn, hg, cur >>
 
 lc_gchk(self) == /\ pc[self] = "lc_gchk"
                  /\ IF rv[self] >= ClampC(lcnt[self])
@@ -1099,8 +1453,10 @@ lc_gchk(self) == /\ pc[self] = "lc_gchk"
                  /\ UNCHANGED << mem, sb, mutex, acc, alloc, gpok, gpw, gps, 
                                  cs, held, wq, htAlive, destroying, items, 
                                  growMax, done, err, errA, rv, ra, rb, rs, osz, 
-                                 nsz, oi, olast, fbr, tv, gsz, lg, csz, cg, 
-                                 hsz, ksz, i, op, n, sz, g, nchk, res, cur >>
+                                 nsz, oi, olast, fbr, hjob, ncreate, pnt, pk, 
+                                 pstart, plen, ppl, pcov, pn, pg, kind, tv, 
+                                 gsz, lg, csz, cg, hsz, ksz, i, op, n, sz, g, 
+                                 nchk, res, hn, hg, cur >>
 
 lc_cas(self) == /\ pc[self] = "lc_cas"
                 /\ Drained(self)
@@ -1132,9 +1488,10 @@ lc_cas(self) == /\ pc[self] = "lc_cas"
                                                                  lcnt >>
                 /\ UNCHANGED << sb, mutex, alloc, gpok, gpw, gps, cs, held, wq, 
                                 htAlive, destroying, items, growMax, done, err, 
-                                rv, ra, osz, nsz, oi, olast, fbr, tv, gsz, lg, 
-                                csz, cg, hsz, ksz, i, op, n, sz, g, nchk, res, 
-                                cur >>
+                                rv, ra, osz, nsz, oi, olast, fbr, hjob, 
+                                ncreate, pnt, pk, pstart, plen, ppl, pcov, pn, 
+                                pg, kind, tv, gsz, lg, csz, cg, hsz, ksz, i, 
+                                op, n, sz, g, nchk, res, hn, hg, cur >>
 
 lc_launch(self) == /\ pc[self] = "lc_launch"
                    /\ stack' = [stack EXCEPT ![self] = << [ procedure |->  "lazy_launch",
@@ -1144,9 +1501,11 @@ lc_launch(self) == /\ pc[self] = "lc_launch"
                    /\ UNCHANGED << mem, sb, mutex, acc, alloc, gpok, gpw, gps, 
                                    cs, held, wq, htAlive, destroying, items, 
                                    growMax, done, err, errA, rv, ra, rb, rs, 
-                                   osz, nsz, oi, olast, fbr, tv, gsz, lg, lsz, 
-                                   lcnt, csz, cg, hsz, ksz, i, op, n, sz, g, 
-                                   nchk, res, cur >>
+                                   osz, nsz, oi, olast, fbr, hjob, ncreate, 
+                                   pnt, pk, pstart, plen, ppl, pcov, pn, pg, 
+                                   kind, tv, gsz, lg, lsz, lcnt, csz, cg, hsz, 
+                                   ksz, i, op, n, sz, g, nchk, res, hn, hg, 
+                                   cur >>
 
 lazy_count(self) == lc_top(self) \/ lc_grow(self) \/ lc_gchk(self)
                        \/ lc_cas(self) \/ lc_launch(self)
@@ -1189,8 +1548,10 @@ cr_ld_count(self) == /\ pc[self] = "cr_ld_count"
                      /\ UNCHANGED << mem, sb, mutex, alloc, gpok, gpw, gps, cs, 
                                      held, wq, htAlive, destroying, items, 
                                      growMax, done, err, rv, rb, rs, osz, nsz, 
-                                     oi, olast, fbr, tv, lsz, lcnt, hsz, ksz, 
-                                     i, op, n, sz, g, nchk, res, cur >>
+                                     oi, olast, fbr, hjob, ncreate, pnt, pk, 
+                                     pstart, plen, ppl, pcov, pn, pg, kind, tv, 
+                                     lsz, lcnt, hsz, ksz, i, op, n, sz, g, 
+                                     nchk, res, hn, hg, cur >>
 
 check_resize(self) == cr_ld_count(self)
 
@@ -1213,9 +1574,10 @@ ca_add(self) == /\ pc[self] = "ca_add"
                                       /\ UNCHANGED << stack, hsz >>
                 /\ UNCHANGED << sb, mutex, alloc, gpok, gpw, gps, cs, held, wq, 
                                 htAlive, destroying, items, growMax, done, err, 
-                                rv, rb, rs, osz, nsz, oi, olast, fbr, tv, gsz, 
-                                lg, lsz, lcnt, csz, cg, ksz, i, op, n, sz, g, 
-                                nchk, res, cur >>
+                                rv, rb, rs, osz, nsz, oi, olast, fbr, hjob, 
+                                ncreate, pnt, pk, pstart, plen, ppl, pcov, pn, 
+                                pg, kind, tv, gsz, lg, lsz, lcnt, csz, cg, ksz, 
+                                i, op, n, sz, g, nchk, res, hn, hg, cur >>
 
 ca_cnt(self) == /\ pc[self] = "ca_cnt"
                 /\ Drained(self)
@@ -1244,9 +1606,10 @@ ca_cnt(self) == /\ pc[self] = "ca_cnt"
                                       /\ hsz' = hsz
                 /\ UNCHANGED << sb, mutex, alloc, gpok, gpw, gps, cs, held, wq, 
                                 htAlive, destroying, items, growMax, done, err, 
-                                rv, rb, rs, osz, nsz, oi, olast, fbr, tv, gsz, 
-                                lg, csz, cg, ksz, i, op, n, sz, g, nchk, res, 
-                                cur >>
+                                rv, rb, rs, osz, nsz, oi, olast, fbr, hjob, 
+                                ncreate, pnt, pk, pstart, plen, ppl, pcov, pn, 
+                                pg, kind, tv, gsz, lg, csz, cg, ksz, i, op, n, 
+                                sz, g, nchk, res, hn, hg, cur >>
 
 ht_count_add(self) == ca_add(self) \/ ca_cnt(self)
 
@@ -1269,9 +1632,10 @@ cd_del(self) == /\ pc[self] = "cd_del"
                                       /\ UNCHANGED << stack, ksz >>
                 /\ UNCHANGED << sb, mutex, alloc, gpok, gpw, gps, cs, held, wq, 
                                 htAlive, destroying, items, growMax, done, err, 
-                                rv, rb, rs, osz, nsz, oi, olast, fbr, tv, gsz, 
-                                lg, lsz, lcnt, csz, cg, hsz, i, op, n, sz, g, 
-                                nchk, res, cur >>
+                                rv, rb, rs, osz, nsz, oi, olast, fbr, hjob, 
+                                ncreate, pnt, pk, pstart, plen, ppl, pcov, pn, 
+                                pg, kind, tv, gsz, lg, lsz, lcnt, csz, cg, hsz, 
+                                i, op, n, sz, g, nchk, res, hn, hg, cur >>
 
 cd_cnt(self) == /\ pc[self] = "cd_cnt"
                 /\ Drained(self)
@@ -1305,9 +1669,10 @@ cd_cnt(self) == /\ pc[self] = "cd_cnt"
                                                  /\ ksz' = ksz
                 /\ UNCHANGED << sb, mutex, alloc, gpok, gpw, gps, cs, held, wq, 
                                 htAlive, destroying, items, growMax, done, err, 
-                                rv, rb, rs, osz, nsz, oi, olast, fbr, tv, gsz, 
-                                lg, csz, cg, hsz, i, op, n, sz, g, nchk, res, 
-                                cur >>
+                                rv, rb, rs, osz, nsz, oi, olast, fbr, hjob, 
+                                ncreate, pnt, pk, pstart, plen, ppl, pcov, pn, 
+                                pg, kind, tv, gsz, lg, csz, cg, hsz, i, op, n, 
+                                sz, g, nchk, res, hn, hg, cur >>
 
 ht_count_del(self) == cd_del(self) \/ cd_cnt(self)
 
@@ -1324,9 +1689,10 @@ db_chk(self) == /\ pc[self] = "db_chk"
                            /\ UNCHANGED << rv, stack >>
                 /\ UNCHANGED << mem, sb, mutex, acc, alloc, gpok, gpw, gps, cs, 
                                 held, wq, htAlive, items, growMax, done, err, 
-                                ra, rb, rs, osz, nsz, olast, fbr, tv, gsz, lg, 
-                                lsz, lcnt, csz, cg, hsz, ksz, i, op, n, sz, g, 
-                                nchk, res, cur >>
+                                ra, rb, rs, osz, nsz, olast, fbr, hjob, 
+                                ncreate, pnt, pk, pstart, plen, ppl, pcov, pn, 
+                                pg, kind, tv, gsz, lg, lsz, lcnt, csz, cg, hsz, 
+                                ksz, i, op, n, sz, g, nchk, res, hn, hg, cur >>
 
 db_free(self) == /\ pc[self] = "db_free"
                  /\ IF oi[self] >= 0
@@ -1342,9 +1708,11 @@ db_free(self) == /\ pc[self] = "db_free"
                             /\ UNCHANGED << acc, alloc, err, oi >>
                  /\ UNCHANGED << mem, sb, mutex, gpok, gpw, gps, cs, held, wq, 
                                  htAlive, destroying, items, growMax, done, 
-                                 errA, ra, rb, rs, osz, nsz, olast, fbr, tv, 
-                                 gsz, lg, lsz, lcnt, csz, cg, hsz, ksz, i, op, 
-                                 n, sz, g, nchk, res, cur >>
+                                 errA, ra, rb, rs, osz, nsz, olast, fbr, hjob, 
+                                 ncreate, pnt, pk, pstart, plen, ppl, pcov, pn, 
+                                 pg, kind, tv, gsz, lg, lsz, lcnt, csz, cg, 
+                                 hsz, ksz, i, op, n, sz, g, nchk, res, hn, hg, 
+                                 cur >>
 
 delete_bucket(self) == db_chk(self) \/ db_free(self)
 
@@ -1358,8 +1726,10 @@ fl(self) == /\ pc[self] = "fl"
             /\ UNCHANGED << mutex, alloc, gpok, gpw, gps, cs, held, wq, 
                             htAlive, destroying, items, growMax, done, err, 
                             errA, rv, ra, rb, rs, osz, nsz, oi, olast, fbr, 
-                            stack, tv, gsz, lg, lsz, lcnt, csz, cg, hsz, ksz, 
-                            i, op, n, sz, g, nchk, res, cur >>
+                            hjob, ncreate, pnt, pk, pstart, plen, ppl, pcov, 
+                            pn, pg, stack, kind, tv, gsz, lg, lsz, lcnt, csz, 
+                            cg, hsz, ksz, i, op, n, sz, g, nchk, res, hn, hg, 
+                            cur >>
 
 flusher(self) == fl(self)
 
@@ -1390,8 +1760,9 @@ t_top(self) == /\ pc[self] = "t_top"
                /\ UNCHANGED << mem, sb, mutex, alloc, gpok, gpw, gps, cs, held, 
                                wq, htAlive, destroying, items, growMax, done, 
                                err, errA, rv, ra, rb, rs, osz, nsz, oi, olast, 
-                               fbr, stack, tv, gsz, lg, lsz, lcnt, csz, cg, 
-                               hsz, ksz, i, sz, g, cur >>
+                               fbr, hjob, ncreate, pnt, pk, pstart, plen, ppl, 
+                               pcov, pn, pg, stack, kind, tv, gsz, lg, lsz, 
+                               lcnt, csz, cg, hsz, ksz, i, sz, g, hn, hg, cur >>
 
 rs_tgt(self) == /\ pc[self] = "rs_tgt"
                 /\ IF TSO
@@ -1404,9 +1775,11 @@ rs_tgt(self) == /\ pc[self] = "rs_tgt"
                 /\ pc' = [pc EXCEPT ![self] = "rs_st_ri"]
                 /\ UNCHANGED << mutex, alloc, gpok, gpw, gps, cs, held, wq, 
                                 htAlive, destroying, items, growMax, done, err, 
-                                rv, ra, rb, rs, osz, nsz, oi, olast, fbr, 
-                                stack, tv, gsz, lg, lsz, lcnt, csz, cg, hsz, 
-                                ksz, i, op, n, sz, g, nchk, res, cur >>
+                                rv, ra, rb, rs, osz, nsz, oi, olast, fbr, hjob, 
+                                ncreate, pnt, pk, pstart, plen, ppl, pcov, pn, 
+                                pg, stack, kind, tv, gsz, lg, lsz, lcnt, csz, 
+                                cg, hsz, ksz, i, op, n, sz, g, nchk, res, hn, 
+                                hg, cur >>
 
 rs_st_ri(self) == /\ pc[self] = "rs_st_ri"
                   /\ IF TSO
@@ -1420,8 +1793,10 @@ rs_st_ri(self) == /\ pc[self] = "rs_st_ri"
                   /\ UNCHANGED << mutex, alloc, gpok, gpw, gps, cs, held, wq, 
                                   htAlive, destroying, items, growMax, done, 
                                   err, rv, ra, rb, rs, osz, nsz, oi, olast, 
-                                  fbr, stack, tv, gsz, lg, lsz, lcnt, csz, cg, 
-                                  hsz, ksz, i, op, n, sz, g, nchk, res, cur >>
+                                  fbr, hjob, ncreate, pnt, pk, pstart, plen, 
+                                  ppl, pcov, pn, pg, stack, kind, tv, gsz, lg, 
+                                  lsz, lcnt, csz, cg, hsz, ksz, i, op, n, sz, 
+                                  g, nchk, res, hn, hg, cur >>
 
 rs_lock(self) == /\ pc[self] = "rs_lock"
                  /\ Drained(self) /\ mutex = "free"
@@ -1432,8 +1807,10 @@ rs_lock(self) == /\ pc[self] = "rs_lock"
                  /\ UNCHANGED << mem, sb, alloc, gpok, gpw, gps, cs, held, wq, 
                                  htAlive, destroying, items, growMax, done, 
                                  err, rv, ra, rb, rs, osz, nsz, oi, olast, fbr, 
-                                 stack, tv, gsz, lg, lsz, lcnt, csz, cg, hsz, 
-                                 ksz, i, op, n, sz, g, nchk, res, cur >>
+                                 hjob, ncreate, pnt, pk, pstart, plen, ppl, 
+                                 pcov, pn, pg, stack, kind, tv, gsz, lg, lsz, 
+                                 lcnt, csz, cg, hsz, ksz, i, op, n, sz, g, 
+                                 nchk, res, hn, hg, cur >>
 
 rs_do(self) == /\ pc[self] = "rs_do"
                /\ stack' = [stack EXCEPT ![self] = << [ procedure |->  "do_resize",
@@ -1443,8 +1820,10 @@ rs_do(self) == /\ pc[self] = "rs_do"
                /\ UNCHANGED << mem, sb, mutex, acc, alloc, gpok, gpw, gps, cs, 
                                held, wq, htAlive, destroying, items, growMax, 
                                done, err, errA, rv, ra, rb, rs, osz, nsz, oi, 
-                               olast, fbr, tv, gsz, lg, lsz, lcnt, csz, cg, 
-                               hsz, ksz, i, op, n, sz, g, nchk, res, cur >>
+                               olast, fbr, hjob, ncreate, pnt, pk, pstart, 
+                               plen, ppl, pcov, pn, pg, kind, tv, gsz, lg, lsz, 
+                               lcnt, csz, cg, hsz, ksz, i, op, n, sz, g, nchk, 
+                               res, hn, hg, cur >>
 
 rs_unlock(self) == /\ pc[self] = "rs_unlock"
                    /\ Drained(self)
@@ -1455,9 +1834,10 @@ rs_unlock(self) == /\ pc[self] = "rs_unlock"
                    /\ UNCHANGED << mem, sb, alloc, gpok, gpw, gps, cs, held, 
                                    wq, htAlive, destroying, items, growMax, 
                                    done, err, rv, ra, rb, rs, osz, nsz, oi, 
-                                   olast, fbr, stack, tv, gsz, lg, lsz, lcnt, 
-                                   csz, cg, hsz, ksz, i, op, n, sz, g, nchk, 
-                                   res, cur >>
+                                   olast, fbr, hjob, ncreate, pnt, pk, pstart, 
+                                   plen, ppl, pcov, pn, pg, stack, kind, tv, 
+                                   gsz, lg, lsz, lcnt, csz, cg, hsz, ksz, i, 
+                                   op, n, sz, g, nchk, res, hn, hg, cur >>
 
 a_rlock(self) == /\ pc[self] = "a_rlock"
                  /\ cs' = [cs EXCEPT ![self] = TRUE]
@@ -1466,9 +1846,10 @@ a_rlock(self) == /\ pc[self] = "a_rlock"
                  /\ UNCHANGED << mem, sb, mutex, alloc, gpok, gpw, gps, held, 
                                  wq, htAlive, destroying, items, growMax, done, 
                                  err, errA, rv, ra, rb, rs, osz, nsz, oi, 
-                                 olast, fbr, stack, tv, gsz, lg, lsz, lcnt, 
-                                 csz, cg, hsz, ksz, i, op, n, sz, g, nchk, res, 
-                                 cur >>
+                                 olast, fbr, hjob, ncreate, pnt, pk, pstart, 
+                                 plen, ppl, pcov, pn, pg, stack, kind, tv, gsz, 
+                                 lg, lsz, lcnt, csz, cg, hsz, ksz, i, op, n, 
+                                 sz, g, nchk, res, hn, hg, cur >>
 
 a_ld_size(self) == /\ pc[self] = "a_ld_size"
                    /\ sz' = [sz EXCEPT ![self] = Rd(self, "size")]
@@ -1479,9 +1860,10 @@ a_ld_size(self) == /\ pc[self] = "a_ld_size"
                    /\ UNCHANGED << mem, sb, mutex, alloc, gpok, gpw, gps, cs, 
                                    wq, htAlive, destroying, items, growMax, 
                                    done, err, rv, ra, rb, rs, osz, nsz, oi, 
-                                   olast, fbr, stack, tv, gsz, lg, lsz, lcnt, 
-                                   csz, cg, hsz, ksz, i, op, n, g, nchk, res, 
-                                   cur >>
+                                   olast, fbr, hjob, ncreate, pnt, pk, pstart, 
+                                   plen, ppl, pcov, pn, pg, stack, kind, tv, 
+                                   gsz, lg, lsz, lcnt, csz, cg, hsz, ksz, i, 
+                                   op, n, g, nchk, res, hn, hg, cur >>
 
 a_walk(self) == /\ pc[self] = "a_walk"
                 /\ \/ /\ AutoResize /\ nchk[self] < MaxChk
@@ -1495,8 +1877,10 @@ a_walk(self) == /\ pc[self] = "a_walk"
                 /\ UNCHANGED << mem, sb, mutex, acc, alloc, gpok, gpw, gps, cs, 
                                 wq, htAlive, destroying, items, growMax, done, 
                                 err, errA, rv, ra, rb, rs, osz, nsz, oi, olast, 
-                                fbr, stack, tv, gsz, lg, lsz, lcnt, csz, cg, 
-                                hsz, ksz, i, op, n, sz, res, cur >>
+                                fbr, hjob, ncreate, pnt, pk, pstart, plen, ppl, 
+                                pcov, pn, pg, stack, kind, tv, gsz, lg, lsz, 
+                                lcnt, csz, cg, hsz, ksz, i, op, n, sz, res, hn, 
+                                hg, cur >>
 
 a_chk(self) == /\ pc[self] = "a_chk"
                /\ /\ cg' = [cg EXCEPT ![self] = g[self]]
@@ -1510,16 +1894,20 @@ a_chk(self) == /\ pc[self] = "a_chk"
                /\ UNCHANGED << mem, sb, mutex, acc, alloc, gpok, gpw, gps, cs, 
                                held, wq, htAlive, destroying, items, growMax, 
                                done, err, errA, rv, ra, rb, rs, osz, nsz, oi, 
-                               olast, fbr, tv, gsz, lg, lsz, lcnt, hsz, ksz, i, 
-                               op, n, sz, g, nchk, res, cur >>
+                               olast, fbr, hjob, ncreate, pnt, pk, pstart, 
+                               plen, ppl, pcov, pn, pg, kind, tv, gsz, lg, lsz, 
+                               lcnt, hsz, ksz, i, op, n, sz, g, nchk, res, hn, 
+                               hg, cur >>
 
 a_back(self) == /\ pc[self] = "a_back"
                 /\ pc' = [pc EXCEPT ![self] = "a_walk"]
                 /\ UNCHANGED << mem, sb, mutex, acc, alloc, gpok, gpw, gps, cs, 
                                 held, wq, htAlive, destroying, items, growMax, 
                                 done, err, errA, rv, ra, rb, rs, osz, nsz, oi, 
-                                olast, fbr, stack, tv, gsz, lg, lsz, lcnt, csz, 
-                                cg, hsz, ksz, i, op, n, sz, g, nchk, res, cur >>
+                                olast, fbr, hjob, ncreate, pnt, pk, pstart, 
+                                plen, ppl, pcov, pn, pg, stack, kind, tv, gsz, 
+                                lg, lsz, lcnt, csz, cg, hsz, ksz, i, op, n, sz, 
+                                g, nchk, res, hn, hg, cur >>
 
 a_insert(self) == /\ pc[self] = "a_insert"
                   /\ Drained(self)
@@ -1529,9 +1917,10 @@ a_insert(self) == /\ pc[self] = "a_insert"
                   /\ UNCHANGED << mem, sb, mutex, acc, alloc, gpok, gpw, gps, 
                                   cs, wq, htAlive, destroying, growMax, done, 
                                   err, errA, rv, ra, rb, rs, osz, nsz, oi, 
-                                  olast, fbr, stack, tv, gsz, lg, lsz, lcnt, 
-                                  csz, cg, hsz, ksz, i, op, n, sz, g, nchk, 
-                                  res, cur >>
+                                  olast, fbr, hjob, ncreate, pnt, pk, pstart, 
+                                  plen, ppl, pcov, pn, pg, stack, kind, tv, 
+                                  gsz, lg, lsz, lcnt, csz, cg, hsz, ksz, i, op, 
+                                  n, sz, g, nchk, res, hn, hg, cur >>
 
 a_cnt(self) == /\ pc[self] = "a_cnt"
                /\ /\ hsz' = [hsz EXCEPT ![self] = sz[self]]
@@ -1543,8 +1932,10 @@ a_cnt(self) == /\ pc[self] = "a_cnt"
                /\ UNCHANGED << mem, sb, mutex, acc, alloc, gpok, gpw, gps, cs, 
                                held, wq, htAlive, destroying, items, growMax, 
                                done, err, errA, rv, ra, rb, rs, osz, nsz, oi, 
-                               olast, fbr, tv, gsz, lg, lsz, lcnt, csz, cg, 
-                               ksz, i, op, n, sz, g, nchk, res, cur >>
+                               olast, fbr, hjob, ncreate, pnt, pk, pstart, 
+                               plen, ppl, pcov, pn, pg, kind, tv, gsz, lg, lsz, 
+                               lcnt, csz, cg, ksz, i, op, n, sz, g, nchk, res, 
+                               hn, hg, cur >>
 
 a_runlock(self) == /\ pc[self] = "a_runlock"
                    /\ cs' = [cs EXCEPT ![self] = FALSE]
@@ -1555,9 +1946,10 @@ a_runlock(self) == /\ pc[self] = "a_runlock"
                    /\ UNCHANGED << mem, sb, mutex, alloc, gpok, gps, wq, 
                                    htAlive, destroying, items, growMax, done, 
                                    err, errA, rv, ra, rb, rs, osz, nsz, oi, 
-                                   olast, fbr, stack, tv, gsz, lg, lsz, lcnt, 
-                                   csz, cg, hsz, ksz, i, op, n, sz, g, nchk, 
-                                   res, cur >>
+                                   olast, fbr, hjob, ncreate, pnt, pk, pstart, 
+                                   plen, ppl, pcov, pn, pg, stack, kind, tv, 
+                                   gsz, lg, lsz, lcnt, csz, cg, hsz, ksz, i, 
+                                   op, n, sz, g, nchk, res, hn, hg, cur >>
 
 d_rlock(self) == /\ pc[self] = "d_rlock"
                  /\ cs' = [cs EXCEPT ![self] = TRUE]
@@ -1566,9 +1958,10 @@ d_rlock(self) == /\ pc[self] = "d_rlock"
                  /\ UNCHANGED << mem, sb, mutex, alloc, gpok, gpw, gps, held, 
                                  wq, htAlive, destroying, items, growMax, done, 
                                  err, errA, rv, ra, rb, rs, osz, nsz, oi, 
-                                 olast, fbr, stack, tv, gsz, lg, lsz, lcnt, 
-                                 csz, cg, hsz, ksz, i, op, n, sz, g, nchk, res, 
-                                 cur >>
+                                 olast, fbr, hjob, ncreate, pnt, pk, pstart, 
+                                 plen, ppl, pcov, pn, pg, stack, kind, tv, gsz, 
+                                 lg, lsz, lcnt, csz, cg, hsz, ksz, i, op, n, 
+                                 sz, g, nchk, res, hn, hg, cur >>
 
 d_ld_size(self) == /\ pc[self] = "d_ld_size"
                    /\ sz' = [sz EXCEPT ![self] = Rd(self, "size")]
@@ -1579,9 +1972,10 @@ d_ld_size(self) == /\ pc[self] = "d_ld_size"
                    /\ UNCHANGED << mem, sb, mutex, alloc, gpok, gpw, gps, cs, 
                                    wq, htAlive, destroying, items, growMax, 
                                    done, err, rv, ra, rb, rs, osz, nsz, oi, 
-                                   olast, fbr, stack, tv, gsz, lg, lsz, lcnt, 
-                                   csz, cg, hsz, ksz, i, op, n, g, nchk, res, 
-                                   cur >>
+                                   olast, fbr, hjob, ncreate, pnt, pk, pstart, 
+                                   plen, ppl, pcov, pn, pg, stack, kind, tv, 
+                                   gsz, lg, lsz, lcnt, csz, cg, hsz, ksz, i, 
+                                   op, n, g, nchk, res, hn, hg, cur >>
 
 d_remove(self) == /\ pc[self] = "d_remove"
                   /\ Drained(self)
@@ -1591,9 +1985,10 @@ d_remove(self) == /\ pc[self] = "d_remove"
                   /\ UNCHANGED << mem, sb, mutex, acc, alloc, gpok, gpw, gps, 
                                   cs, wq, htAlive, destroying, growMax, done, 
                                   err, errA, rv, ra, rb, rs, osz, nsz, oi, 
-                                  olast, fbr, stack, tv, gsz, lg, lsz, lcnt, 
-                                  csz, cg, hsz, ksz, i, op, n, sz, g, nchk, 
-                                  res, cur >>
+                                  olast, fbr, hjob, ncreate, pnt, pk, pstart, 
+                                  plen, ppl, pcov, pn, pg, stack, kind, tv, 
+                                  gsz, lg, lsz, lcnt, csz, cg, hsz, ksz, i, op, 
+                                  n, sz, g, nchk, res, hn, hg, cur >>
 
 d_cnt(self) == /\ pc[self] = "d_cnt"
                /\ /\ ksz' = [ksz EXCEPT ![self] = sz[self]]
@@ -1605,8 +2000,10 @@ d_cnt(self) == /\ pc[self] = "d_cnt"
                /\ UNCHANGED << mem, sb, mutex, acc, alloc, gpok, gpw, gps, cs, 
                                held, wq, htAlive, destroying, items, growMax, 
                                done, err, errA, rv, ra, rb, rs, osz, nsz, oi, 
-                               olast, fbr, tv, gsz, lg, lsz, lcnt, csz, cg, 
-                               hsz, i, op, n, sz, g, nchk, res, cur >>
+                               olast, fbr, hjob, ncreate, pnt, pk, pstart, 
+                               plen, ppl, pcov, pn, pg, kind, tv, gsz, lg, lsz, 
+                               lcnt, csz, cg, hsz, i, op, n, sz, g, nchk, res, 
+                               hn, hg, cur >>
 
 d_runlock(self) == /\ pc[self] = "d_runlock"
                    /\ cs' = [cs EXCEPT ![self] = FALSE]
@@ -1617,9 +2014,10 @@ d_runlock(self) == /\ pc[self] = "d_runlock"
                    /\ UNCHANGED << mem, sb, mutex, alloc, gpok, gps, wq, 
                                    htAlive, destroying, items, growMax, done, 
                                    err, errA, rv, ra, rb, rs, osz, nsz, oi, 
-                                   olast, fbr, stack, tv, gsz, lg, lsz, lcnt, 
-                                   csz, cg, hsz, ksz, i, op, n, sz, g, nchk, 
-                                   res, cur >>
+                                   olast, fbr, hjob, ncreate, pnt, pk, pstart, 
+                                   plen, ppl, pcov, pn, pg, stack, kind, tv, 
+                                   gsz, lg, lsz, lcnt, csz, cg, hsz, ksz, i, 
+                                   op, n, sz, g, nchk, res, hn, hg, cur >>
 
 l_rlock(self) == /\ pc[self] = "l_rlock"
                  /\ cs' = [cs EXCEPT ![self] = TRUE]
@@ -1628,9 +2026,10 @@ l_rlock(self) == /\ pc[self] = "l_rlock"
                  /\ UNCHANGED << mem, sb, mutex, alloc, gpok, gpw, gps, held, 
                                  wq, htAlive, destroying, items, growMax, done, 
                                  err, errA, rv, ra, rb, rs, osz, nsz, oi, 
-                                 olast, fbr, stack, tv, gsz, lg, lsz, lcnt, 
-                                 csz, cg, hsz, ksz, i, op, n, sz, g, nchk, res, 
-                                 cur >>
+                                 olast, fbr, hjob, ncreate, pnt, pk, pstart, 
+                                 plen, ppl, pcov, pn, pg, stack, kind, tv, gsz, 
+                                 lg, lsz, lcnt, csz, cg, hsz, ksz, i, op, n, 
+                                 sz, g, nchk, res, hn, hg, cur >>
 
 l_ld_size(self) == /\ pc[self] = "l_ld_size"
                    /\ sz' = [sz EXCEPT ![self] = Rd(self, "size")]
@@ -1641,9 +2040,10 @@ l_ld_size(self) == /\ pc[self] = "l_ld_size"
                    /\ UNCHANGED << mem, sb, mutex, alloc, gpok, gpw, gps, cs, 
                                    wq, htAlive, destroying, items, growMax, 
                                    done, err, rv, ra, rb, rs, osz, nsz, oi, 
-                                   olast, fbr, stack, tv, gsz, lg, lsz, lcnt, 
-                                   csz, cg, hsz, ksz, i, op, n, g, nchk, res, 
-                                   cur >>
+                                   olast, fbr, hjob, ncreate, pnt, pk, pstart, 
+                                   plen, ppl, pcov, pn, pg, stack, kind, tv, 
+                                   gsz, lg, lsz, lcnt, csz, cg, hsz, ksz, i, 
+                                   op, n, g, nchk, res, hn, hg, cur >>
 
 l_walk(self) == /\ pc[self] = "l_walk"
                 /\ held' = [held EXCEPT ![self] = held[self] \cup Linked]
@@ -1651,8 +2051,10 @@ l_walk(self) == /\ pc[self] = "l_walk"
                 /\ UNCHANGED << mem, sb, mutex, acc, alloc, gpok, gpw, gps, cs, 
                                 wq, htAlive, destroying, items, growMax, done, 
                                 err, errA, rv, ra, rb, rs, osz, nsz, oi, olast, 
-                                fbr, stack, tv, gsz, lg, lsz, lcnt, csz, cg, 
-                                hsz, ksz, i, op, n, sz, g, nchk, res, cur >>
+                                fbr, hjob, ncreate, pnt, pk, pstart, plen, ppl, 
+                                pcov, pn, pg, stack, kind, tv, gsz, lg, lsz, 
+                                lcnt, csz, cg, hsz, ksz, i, op, n, sz, g, nchk, 
+                                res, hn, hg, cur >>
 
 l_runlock(self) == /\ pc[self] = "l_runlock"
                    /\ cs' = [cs EXCEPT ![self] = FALSE]
@@ -1663,9 +2065,10 @@ l_runlock(self) == /\ pc[self] = "l_runlock"
                    /\ UNCHANGED << mem, sb, mutex, alloc, gpok, gps, wq, 
                                    htAlive, destroying, items, growMax, done, 
                                    err, errA, rv, ra, rb, rs, osz, nsz, oi, 
-                                   olast, fbr, stack, tv, gsz, lg, lsz, lcnt, 
-                                   csz, cg, hsz, ksz, i, op, n, sz, g, nchk, 
-                                   res, cur >>
+                                   olast, fbr, hjob, ncreate, pnt, pk, pstart, 
+                                   plen, ppl, pcov, pn, pg, stack, kind, tv, 
+                                   gsz, lg, lsz, lcnt, csz, cg, hsz, ksz, i, 
+                                   op, n, sz, g, nchk, res, hn, hg, cur >>
 
 ds_join(self) == /\ pc[self] = "ds_join"
                  /\ \A t \in Threads \ {self} : done[t]
@@ -1675,9 +2078,10 @@ ds_join(self) == /\ pc[self] = "ds_join"
                  /\ UNCHANGED << mem, sb, mutex, acc, alloc, gpok, gpw, gps, 
                                  cs, held, wq, htAlive, destroying, items, 
                                  growMax, done, err, errA, rv, ra, rb, rs, osz, 
-                                 nsz, oi, olast, fbr, stack, tv, gsz, lg, lsz, 
-                                 lcnt, csz, cg, hsz, ksz, i, op, n, sz, g, 
-                                 nchk, res, cur >>
+                                 nsz, oi, olast, fbr, hjob, ncreate, pnt, pk, 
+                                 pstart, plen, ppl, pcov, pn, pg, stack, kind, 
+                                 tv, gsz, lg, lsz, lcnt, csz, cg, hsz, ksz, i, 
+                                 op, n, sz, g, nchk, res, hn, hg, cur >>
 
 ds_e_lock(self) == /\ pc[self] = "ds_e_lock"
                    /\ cs' = [cs EXCEPT ![self] = TRUE]
@@ -1687,9 +2091,10 @@ ds_e_lock(self) == /\ pc[self] = "ds_e_lock"
                    /\ UNCHANGED << mem, sb, mutex, alloc, gpok, gpw, gps, held, 
                                    wq, htAlive, destroying, items, growMax, 
                                    done, err, rv, ra, rb, rs, osz, nsz, oi, 
-                                   olast, fbr, stack, tv, gsz, lg, lsz, lcnt, 
-                                   csz, cg, hsz, ksz, i, op, n, sz, g, nchk, 
-                                   res, cur >>
+                                   olast, fbr, hjob, ncreate, pnt, pk, pstart, 
+                                   plen, ppl, pcov, pn, pg, stack, kind, tv, 
+                                   gsz, lg, lsz, lcnt, csz, cg, hsz, ksz, i, 
+                                   op, n, sz, g, nchk, res, hn, hg, cur >>
 
 ds_e_unlock(self) == /\ pc[self] = "ds_e_unlock"
                      /\ cs' = [cs EXCEPT ![self] = FALSE]
@@ -1704,8 +2109,10 @@ ds_e_unlock(self) == /\ pc[self] = "ds_e_unlock"
                      /\ UNCHANGED << mem, sb, mutex, alloc, gpok, gps, wq, 
                                      htAlive, destroying, items, growMax, done, 
                                      err, errA, rv, ra, rb, rs, osz, nsz, oi, 
-                                     olast, fbr, stack, tv, gsz, lg, lsz, lcnt, 
-                                     csz, cg, hsz, ksz, i, op, n, sz, g, nchk, 
+                                     olast, fbr, hjob, ncreate, pnt, pk, 
+                                     pstart, plen, ppl, pcov, pn, pg, stack, 
+                                     kind, tv, gsz, lg, lsz, lcnt, csz, cg, 
+                                     hsz, ksz, i, op, n, sz, g, nchk, hn, hg, 
                                      cur >>
 
 ds_st_ipd(self) == /\ pc[self] = "ds_st_ipd"
@@ -1720,8 +2127,10 @@ ds_st_ipd(self) == /\ pc[self] = "ds_st_ipd"
                    /\ UNCHANGED << mutex, alloc, gpok, gpw, gps, cs, held, wq, 
                                    htAlive, destroying, items, growMax, done, 
                                    err, rv, ra, rb, rs, osz, nsz, oi, olast, 
-                                   fbr, stack, tv, gsz, lg, lsz, lcnt, csz, cg, 
-                                   hsz, ksz, i, op, n, sz, g, nchk, res, cur >>
+                                   fbr, hjob, ncreate, pnt, pk, pstart, plen, 
+                                   ppl, pcov, pn, pg, stack, kind, tv, gsz, lg, 
+                                   lsz, lcnt, csz, cg, hsz, ksz, i, op, n, sz, 
+                                   g, nchk, res, hn, hg, cur >>
 
 ds_queue(self) == /\ pc[self] = "ds_queue"
                   /\ Drained(self)
@@ -1731,9 +2140,10 @@ ds_queue(self) == /\ pc[self] = "ds_queue"
                   /\ UNCHANGED << mem, sb, mutex, alloc, gpok, gpw, gps, cs, 
                                   held, htAlive, destroying, items, growMax, 
                                   done, err, errA, rv, ra, rb, rs, osz, nsz, 
-                                  oi, olast, fbr, stack, tv, gsz, lg, lsz, 
-                                  lcnt, csz, cg, hsz, ksz, i, op, n, sz, g, 
-                                  nchk, res, cur >>
+                                  oi, olast, fbr, hjob, ncreate, pnt, pk, 
+                                  pstart, plen, ppl, pcov, pn, pg, stack, kind, 
+                                  tv, gsz, lg, lsz, lcnt, csz, cg, hsz, ksz, i, 
+                                  op, n, sz, g, nchk, res, hn, hg, cur >>
 
 ds_db(self) == /\ pc[self] = "ds_db"
                /\ stack' = [stack EXCEPT ![self] = << [ procedure |->  "delete_bucket",
@@ -1743,8 +2153,10 @@ ds_db(self) == /\ pc[self] = "ds_db"
                /\ UNCHANGED << mem, sb, mutex, acc, alloc, gpok, gpw, gps, cs, 
                                held, wq, htAlive, destroying, items, growMax, 
                                done, err, errA, rv, ra, rb, rs, osz, nsz, oi, 
-                               olast, fbr, tv, gsz, lg, lsz, lcnt, csz, cg, 
-                               hsz, ksz, i, op, n, sz, g, nchk, res, cur >>
+                               olast, fbr, hjob, ncreate, pnt, pk, pstart, 
+                               plen, ppl, pcov, pn, pg, kind, tv, gsz, lg, lsz, 
+                               lcnt, csz, cg, hsz, ksz, i, op, n, sz, g, nchk, 
+                               res, hn, hg, cur >>
 
 ds_dbr(self) == /\ pc[self] = "ds_dbr"
                 /\ IF rv[self] # 0
@@ -1755,8 +2167,10 @@ ds_dbr(self) == /\ pc[self] = "ds_dbr"
                 /\ UNCHANGED << mem, sb, mutex, acc, alloc, gpok, gpw, gps, cs, 
                                 held, wq, htAlive, destroying, items, growMax, 
                                 done, err, errA, rv, ra, rb, rs, osz, nsz, oi, 
-                                olast, fbr, stack, tv, gsz, lg, lsz, lcnt, csz, 
-                                cg, hsz, ksz, i, op, n, sz, g, nchk, cur >>
+                                olast, fbr, hjob, ncreate, pnt, pk, pstart, 
+                                plen, ppl, pcov, pn, pg, stack, kind, tv, gsz, 
+                                lg, lsz, lcnt, csz, cg, hsz, ksz, i, op, n, sz, 
+                                g, nchk, hn, hg, cur >>
 
 ds_fsc(self) == /\ pc[self] = "ds_fsc"
                 /\ IF Accounting
@@ -1767,8 +2181,10 @@ ds_fsc(self) == /\ pc[self] = "ds_fsc"
                 /\ UNCHANGED << mem, sb, mutex, alloc, gpok, gpw, gps, cs, 
                                 held, wq, htAlive, destroying, items, growMax, 
                                 done, err, errA, rv, ra, rb, rs, osz, nsz, oi, 
-                                olast, fbr, stack, tv, gsz, lg, lsz, lcnt, csz, 
-                                cg, hsz, ksz, i, op, n, sz, g, nchk, res, cur >>
+                                olast, fbr, hjob, ncreate, pnt, pk, pstart, 
+                                plen, ppl, pcov, pn, pg, stack, kind, tv, gsz, 
+                                lg, lsz, lcnt, csz, cg, hsz, ksz, i, op, n, sz, 
+                                g, nchk, res, hn, hg, cur >>
 
 ds_fht(self) == /\ pc[self] = "ds_fht"
                 /\ htAlive' = FALSE
@@ -1777,8 +2193,10 @@ ds_fht(self) == /\ pc[self] = "ds_fht"
                 /\ UNCHANGED << mem, sb, mutex, alloc, gpok, gpw, gps, cs, 
                                 held, wq, destroying, items, growMax, done, 
                                 err, errA, rv, ra, rb, rs, osz, nsz, oi, olast, 
-                                fbr, stack, tv, gsz, lg, lsz, lcnt, csz, cg, 
-                                hsz, ksz, i, op, n, sz, g, nchk, res, cur >>
+                                fbr, hjob, ncreate, pnt, pk, pstart, plen, ppl, 
+                                pcov, pn, pg, stack, kind, tv, gsz, lg, lsz, 
+                                lcnt, csz, cg, hsz, ksz, i, op, n, sz, g, nchk, 
+                                res, hn, hg, cur >>
 
 t_ret(self) == /\ pc[self] = "t_ret"
                /\ acc' = Ev(self, "ret", op[self].op, 0, 0, res[self])
@@ -1787,8 +2205,10 @@ t_ret(self) == /\ pc[self] = "t_ret"
                /\ UNCHANGED << mem, sb, mutex, alloc, gpok, gpw, gps, cs, held, 
                                wq, htAlive, destroying, items, growMax, done, 
                                err, errA, rv, ra, rb, rs, osz, nsz, oi, olast, 
-                               fbr, stack, tv, gsz, lg, lsz, lcnt, csz, cg, 
-                               hsz, ksz, op, n, sz, g, nchk, res, cur >>
+                               fbr, hjob, ncreate, pnt, pk, pstart, plen, ppl, 
+                               pcov, pn, pg, stack, kind, tv, gsz, lg, lsz, 
+                               lcnt, csz, cg, hsz, ksz, op, n, sz, g, nchk, 
+                               res, hn, hg, cur >>
 
 t_fin(self) == /\ pc[self] = "t_fin"
                /\ done' = [done EXCEPT ![self] = TRUE]
@@ -1797,8 +2217,10 @@ t_fin(self) == /\ pc[self] = "t_fin"
                /\ UNCHANGED << mem, sb, mutex, alloc, gpok, gpw, gps, cs, held, 
                                wq, htAlive, destroying, items, growMax, err, 
                                errA, rv, ra, rb, rs, osz, nsz, oi, olast, fbr, 
-                               stack, tv, gsz, lg, lsz, lcnt, csz, cg, hsz, 
-                               ksz, i, op, n, sz, g, nchk, res, cur >>
+                               hjob, ncreate, pnt, pk, pstart, plen, ppl, pcov, 
+                               pn, pg, stack, kind, tv, gsz, lg, lsz, lcnt, 
+                               csz, cg, hsz, ksz, i, op, n, sz, g, nchk, res, 
+                               hn, hg, cur >>
 
 thr(self) == t_top(self) \/ rs_tgt(self) \/ rs_st_ri(self) \/ rs_lock(self)
                 \/ rs_do(self) \/ rs_unlock(self) \/ a_rlock(self)
@@ -1812,6 +2234,78 @@ thr(self) == t_top(self) \/ rs_tgt(self) \/ rs_st_ri(self) \/ rs_lock(self)
                 \/ ds_db(self) \/ ds_dbr(self) \/ ds_fsc(self)
                 \/ ds_fht(self) \/ t_ret(self) \/ t_fin(self)
 
+hp_reg(self) == /\ pc[self] = "hp_reg"
+                /\ hjob[self].st = "run"
+                /\ hn' = [hn EXCEPT ![self] = 0]
+                /\ acc' = Ev(self, "reg", "-", 0, 0, 0)
+                /\ pc' = [pc EXCEPT ![self] = "hp_walk"]
+                /\ UNCHANGED << mem, sb, mutex, alloc, gpok, gpw, gps, cs, 
+                                held, wq, htAlive, destroying, items, growMax, 
+                                done, err, errA, rv, ra, rb, rs, osz, nsz, oi, 
+                                olast, fbr, hjob, ncreate, pnt, pk, pstart, 
+                                plen, ppl, pcov, pn, pg, stack, kind, tv, gsz, 
+                                lg, lsz, lcnt, csz, cg, hsz, ksz, i, op, n, sz, 
+                                g, nchk, res, hg, cur >>
+
+hp_walk(self) == /\ pc[self] = "hp_walk"
+                 /\ \/ /\ AutoResize /\ hjob[self].kind = "pop" /\ hn[self] < MaxChkP
+                       /\ hn' = [hn EXCEPT ![self] = hn[self] + 1]
+                       /\ \E gg \in Growths \cup {0}:
+                            hg' = [hg EXCEPT ![self] = gg]
+                       /\ pc' = [pc EXCEPT ![self] = "hp_chk"]
+                    \/ /\ pc' = [pc EXCEPT ![self] = "hp_unreg"]
+                       /\ UNCHANGED <<hn, hg>>
+                 /\ UNCHANGED << mem, sb, mutex, acc, alloc, gpok, gpw, gps, 
+                                 cs, held, wq, htAlive, destroying, items, 
+                                 growMax, done, err, errA, rv, ra, rb, rs, osz, 
+                                 nsz, oi, olast, fbr, hjob, ncreate, pnt, pk, 
+                                 pstart, plen, ppl, pcov, pn, pg, stack, kind, 
+                                 tv, gsz, lg, lsz, lcnt, csz, cg, hsz, ksz, i, 
+                                 op, n, sz, g, nchk, res, cur >>
+
+hp_chk(self) == /\ pc[self] = "hp_chk"
+                /\ /\ cg' = [cg EXCEPT ![self] = hg[self]]
+                   /\ csz' = [csz EXCEPT ![self] = Pow2(oi[hjob[self].par] - 1)]
+                   /\ stack' = [stack EXCEPT ![self] = << [ procedure |->  "check_resize",
+                                                            pc        |->  "hp_back",
+                                                            csz       |->  csz[self],
+                                                            cg        |->  cg[self] ] >>
+                                                        \o stack[self]]
+                /\ pc' = [pc EXCEPT ![self] = "cr_ld_count"]
+                /\ UNCHANGED << mem, sb, mutex, acc, alloc, gpok, gpw, gps, cs, 
+                                held, wq, htAlive, destroying, items, growMax, 
+                                done, err, errA, rv, ra, rb, rs, osz, nsz, oi, 
+                                olast, fbr, hjob, ncreate, pnt, pk, pstart, 
+                                plen, ppl, pcov, pn, pg, kind, tv, gsz, lg, 
+                                lsz, lcnt, hsz, ksz, i, op, n, sz, g, nchk, 
+                                res, hn, hg, cur >>
+
+hp_back(self) == /\ pc[self] = "hp_back"
+                 /\ pc' = [pc EXCEPT ![self] = "hp_walk"]
+                 /\ UNCHANGED << mem, sb, mutex, acc, alloc, gpok, gpw, gps, 
+                                 cs, held, wq, htAlive, destroying, items, 
+                                 growMax, done, err, errA, rv, ra, rb, rs, osz, 
+                                 nsz, oi, olast, fbr, hjob, ncreate, pnt, pk, 
+                                 pstart, plen, ppl, pcov, pn, pg, stack, kind, 
+                                 tv, gsz, lg, lsz, lcnt, csz, cg, hsz, ksz, i, 
+                                 op, n, sz, g, nchk, res, hn, hg, cur >>
+
+hp_unreg(self) == /\ pc[self] = "hp_unreg"
+                  /\ pcov' = [pcov EXCEPT ![hjob[self].par] = pcov[hjob[self].par] + hjob[self].len]
+                  /\ hjob' = [hjob EXCEPT ![self].st = "done"]
+                  /\ acc' = Ev(self, "unreg", "-", 0, 0, 0)
+                  /\ pc' = [pc EXCEPT ![self] = "hp_reg"]
+                  /\ UNCHANGED << mem, sb, mutex, alloc, gpok, gpw, gps, cs, 
+                                  held, wq, htAlive, destroying, items, 
+                                  growMax, done, err, errA, rv, ra, rb, rs, 
+                                  osz, nsz, oi, olast, fbr, ncreate, pnt, pk, 
+                                  pstart, plen, ppl, pn, pg, stack, kind, tv, 
+                                  gsz, lg, lsz, lcnt, csz, cg, hsz, ksz, i, op, 
+                                  n, sz, g, nchk, res, hn, hg, cur >>
+
+helper(self) == hp_reg(self) \/ hp_walk(self) \/ hp_chk(self)
+                   \/ hp_back(self) \/ hp_unreg(self)
+
 w_wait(self) == /\ pc[self] = "w_wait"
                 /\ wq # <<>>
                 /\ cur' = [cur EXCEPT ![self] = Head(wq)]
@@ -1822,8 +2316,10 @@ w_wait(self) == /\ pc[self] = "w_wait"
                 /\ UNCHANGED << mem, sb, mutex, alloc, gpok, gpw, gps, cs, 
                                 held, htAlive, destroying, items, growMax, 
                                 done, err, rv, ra, rb, rs, osz, nsz, oi, olast, 
-                                fbr, stack, tv, gsz, lg, lsz, lcnt, csz, cg, 
-                                hsz, ksz, i, op, n, sz, g, nchk, res >>
+                                fbr, hjob, ncreate, pnt, pk, pstart, plen, ppl, 
+                                pcov, pn, pg, stack, kind, tv, gsz, lg, lsz, 
+                                lcnt, csz, cg, hsz, ksz, i, op, n, sz, g, nchk, 
+                                res, hn, hg >>
 
 w_disp(self) == /\ pc[self] = "w_disp"
                 /\ IF cur[self] = "rw"
@@ -1832,8 +2328,10 @@ w_disp(self) == /\ pc[self] = "w_disp"
                 /\ UNCHANGED << mem, sb, mutex, acc, alloc, gpok, gpw, gps, cs, 
                                 held, wq, htAlive, destroying, items, growMax, 
                                 done, err, errA, rv, ra, rb, rs, osz, nsz, oi, 
-                                olast, fbr, stack, tv, gsz, lg, lsz, lcnt, csz, 
-                                cg, hsz, ksz, i, op, n, sz, g, nchk, res, cur >>
+                                olast, fbr, hjob, ncreate, pnt, pk, pstart, 
+                                plen, ppl, pcov, pn, pg, stack, kind, tv, gsz, 
+                                lg, lsz, lcnt, csz, cg, hsz, ksz, i, op, n, sz, 
+                                g, nchk, res, hn, hg, cur >>
 
 w_lock(self) == /\ pc[self] = "w_lock"
                 /\ Drained(self) /\ mutex = "free"
@@ -1843,9 +2341,11 @@ w_lock(self) == /\ pc[self] = "w_lock"
                 /\ pc' = [pc EXCEPT ![self] = "w_do"]
                 /\ UNCHANGED << mem, sb, alloc, gpok, gpw, gps, cs, held, wq, 
                                 htAlive, destroying, items, growMax, done, err, 
-                                rv, ra, rb, rs, osz, nsz, oi, olast, fbr, 
-                                stack, tv, gsz, lg, lsz, lcnt, csz, cg, hsz, 
-                                ksz, i, op, n, sz, g, nchk, res, cur >>
+                                rv, ra, rb, rs, osz, nsz, oi, olast, fbr, hjob, 
+                                ncreate, pnt, pk, pstart, plen, ppl, pcov, pn, 
+                                pg, stack, kind, tv, gsz, lg, lsz, lcnt, csz, 
+                                cg, hsz, ksz, i, op, n, sz, g, nchk, res, hn, 
+                                hg, cur >>
 
 w_do(self) == /\ pc[self] = "w_do"
               /\ stack' = [stack EXCEPT ![self] = << [ procedure |->  "do_resize",
@@ -1855,8 +2355,10 @@ w_do(self) == /\ pc[self] = "w_do"
               /\ UNCHANGED << mem, sb, mutex, acc, alloc, gpok, gpw, gps, cs, 
                               held, wq, htAlive, destroying, items, growMax, 
                               done, err, errA, rv, ra, rb, rs, osz, nsz, oi, 
-                              olast, fbr, tv, gsz, lg, lsz, lcnt, csz, cg, hsz, 
-                              ksz, i, op, n, sz, g, nchk, res, cur >>
+                              olast, fbr, hjob, ncreate, pnt, pk, pstart, plen, 
+                              ppl, pcov, pn, pg, kind, tv, gsz, lg, lsz, lcnt, 
+                              csz, cg, hsz, ksz, i, op, n, sz, g, nchk, res, 
+                              hn, hg, cur >>
 
 w_unlock(self) == /\ pc[self] = "w_unlock"
                   /\ Drained(self)
@@ -1867,8 +2369,10 @@ w_unlock(self) == /\ pc[self] = "w_unlock"
                   /\ UNCHANGED << mem, sb, alloc, gpok, gpw, gps, cs, held, wq, 
                                   htAlive, destroying, items, growMax, done, 
                                   err, rv, ra, rb, rs, osz, nsz, oi, olast, 
-                                  fbr, stack, tv, gsz, lg, lsz, lcnt, csz, cg, 
-                                  hsz, ksz, i, op, n, sz, g, nchk, res, cur >>
+                                  fbr, hjob, ncreate, pnt, pk, pstart, plen, 
+                                  ppl, pcov, pn, pg, stack, kind, tv, gsz, lg, 
+                                  lsz, lcnt, csz, cg, hsz, ksz, i, op, n, sz, 
+                                  g, nchk, res, hn, hg, cur >>
 
 w_unreg(self) == /\ pc[self] = "w_unreg"
                  /\ acc' = Ev(self, "unreg", "-", 0, 0, 0)
@@ -1876,9 +2380,10 @@ w_unreg(self) == /\ pc[self] = "w_unreg"
                  /\ UNCHANGED << mem, sb, mutex, alloc, gpok, gpw, gps, cs, 
                                  held, wq, htAlive, destroying, items, growMax, 
                                  done, err, errA, rv, ra, rb, rs, osz, nsz, oi, 
-                                 olast, fbr, stack, tv, gsz, lg, lsz, lcnt, 
-                                 csz, cg, hsz, ksz, i, op, n, sz, g, nchk, res, 
-                                 cur >>
+                                 olast, fbr, hjob, ncreate, pnt, pk, pstart, 
+                                 plen, ppl, pcov, pn, pg, stack, kind, tv, gsz, 
+                                 lg, lsz, lcnt, csz, cg, hsz, ksz, i, op, n, 
+                                 sz, g, nchk, res, hn, hg, cur >>
 
 w_wfree(self) == /\ pc[self] = "w_wfree"
                  /\ acc' = Ev(self, "wfree", "rw", 0, 0, 0)
@@ -1886,9 +2391,10 @@ w_wfree(self) == /\ pc[self] = "w_wfree"
                  /\ UNCHANGED << mem, sb, mutex, alloc, gpok, gpw, gps, cs, 
                                  held, wq, htAlive, destroying, items, growMax, 
                                  done, err, errA, rv, ra, rb, rs, osz, nsz, oi, 
-                                 olast, fbr, stack, tv, gsz, lg, lsz, lcnt, 
-                                 csz, cg, hsz, ksz, i, op, n, sz, g, nchk, res, 
-                                 cur >>
+                                 olast, fbr, hjob, ncreate, pnt, pk, pstart, 
+                                 plen, ppl, pcov, pn, pg, stack, kind, tv, gsz, 
+                                 lg, lsz, lcnt, csz, cg, hsz, ksz, i, op, n, 
+                                 sz, g, nchk, res, hn, hg, cur >>
 
 w_db(self) == /\ pc[self] = "w_db"
               /\ stack' = [stack EXCEPT ![self] = << [ procedure |->  "delete_bucket",
@@ -1898,8 +2404,10 @@ w_db(self) == /\ pc[self] = "w_db"
               /\ UNCHANGED << mem, sb, mutex, acc, alloc, gpok, gpw, gps, cs, 
                               held, wq, htAlive, destroying, items, growMax, 
                               done, err, errA, rv, ra, rb, rs, osz, nsz, oi, 
-                              olast, fbr, tv, gsz, lg, lsz, lcnt, csz, cg, hsz, 
-                              ksz, i, op, n, sz, g, nchk, res, cur >>
+                              olast, fbr, hjob, ncreate, pnt, pk, pstart, plen, 
+                              ppl, pcov, pn, pg, kind, tv, gsz, lg, lsz, lcnt, 
+                              csz, cg, hsz, ksz, i, op, n, sz, g, nchk, res, 
+                              hn, hg, cur >>
 
 w_fsc(self) == /\ pc[self] = "w_fsc"
                /\ err' = (IF rv[self] = 0 THEN err ELSE err \cup {"destroy_cb_nonempty"})
@@ -1911,8 +2419,10 @@ w_fsc(self) == /\ pc[self] = "w_fsc"
                /\ UNCHANGED << mem, sb, mutex, alloc, gpok, gpw, gps, cs, held, 
                                wq, htAlive, destroying, items, growMax, done, 
                                errA, rv, ra, rb, rs, osz, nsz, oi, olast, fbr, 
-                               stack, tv, gsz, lg, lsz, lcnt, csz, cg, hsz, 
-                               ksz, i, op, n, sz, g, nchk, res, cur >>
+                               hjob, ncreate, pnt, pk, pstart, plen, ppl, pcov, 
+                               pn, pg, stack, kind, tv, gsz, lg, lsz, lcnt, 
+                               csz, cg, hsz, ksz, i, op, n, sz, g, nchk, res, 
+                               hn, hg, cur >>
 
 w_unreg2(self) == /\ pc[self] = "w_unreg2"
                   /\ acc' = Ev(self, "unreg", "-", 0, 0, 0)
@@ -1920,9 +2430,10 @@ w_unreg2(self) == /\ pc[self] = "w_unreg2"
                   /\ UNCHANGED << mem, sb, mutex, alloc, gpok, gpw, gps, cs, 
                                   held, wq, htAlive, destroying, items, 
                                   growMax, done, err, errA, rv, ra, rb, rs, 
-                                  osz, nsz, oi, olast, fbr, stack, tv, gsz, lg, 
-                                  lsz, lcnt, csz, cg, hsz, ksz, i, op, n, sz, 
-                                  g, nchk, res, cur >>
+                                  osz, nsz, oi, olast, fbr, hjob, ncreate, pnt, 
+                                  pk, pstart, plen, ppl, pcov, pn, pg, stack, 
+                                  kind, tv, gsz, lg, lsz, lcnt, csz, cg, hsz, 
+                                  ksz, i, op, n, sz, g, nchk, res, hn, hg, cur >>
 
 w_fht(self) == /\ pc[self] = "w_fht"
                /\ htAlive' = FALSE
@@ -1930,22 +2441,25 @@ w_fht(self) == /\ pc[self] = "w_fht"
                /\ pc' = [pc EXCEPT ![self] = "w_wait"]
                /\ UNCHANGED << mem, sb, mutex, alloc, gpok, gpw, gps, cs, held, 
                                wq, destroying, items, growMax, done, err, errA, 
-                               rv, ra, rb, rs, osz, nsz, oi, olast, fbr, stack, 
-                               tv, gsz, lg, lsz, lcnt, csz, cg, hsz, ksz, i, 
-                               op, n, sz, g, nchk, res, cur >>
+                               rv, ra, rb, rs, osz, nsz, oi, olast, fbr, hjob, 
+                               ncreate, pnt, pk, pstart, plen, ppl, pcov, pn, 
+                               pg, stack, kind, tv, gsz, lg, lsz, lcnt, csz, 
+                               cg, hsz, ksz, i, op, n, sz, g, nchk, res, hn, 
+                               hg, cur >>
 
 worker(self) == w_wait(self) \/ w_disp(self) \/ w_lock(self) \/ w_do(self)
                    \/ w_unlock(self) \/ w_unreg(self) \/ w_wfree(self)
                    \/ w_db(self) \/ w_fsc(self) \/ w_unreg2(self)
                    \/ w_fht(self)
 
-Next == (\E self \in ProcSet:  \/ do_resize(self) \/ target_grow(self)
-                               \/ lazy_launch(self) \/ lazy_grow(self)
-                               \/ lazy_count(self) \/ check_resize(self)
-                               \/ ht_count_add(self) \/ ht_count_del(self)
-                               \/ delete_bucket(self))
+Next == (\E self \in ProcSet:  \/ partition(self) \/ do_resize(self)
+                               \/ target_grow(self) \/ lazy_launch(self)
+                               \/ lazy_grow(self) \/ lazy_count(self)
+                               \/ check_resize(self) \/ ht_count_add(self)
+                               \/ ht_count_del(self) \/ delete_bucket(self))
            \/ (\E self \in Flushers: flusher(self))
            \/ (\E self \in Threads: thr(self))
+           \/ (\E self \in Helpers: helper(self))
            \/ (\E self \in {W}: worker(self))
 
 Spec == /\ Init /\ [][Next]_vars
@@ -1956,19 +2470,33 @@ Spec == /\ Init /\ [][Next]_vars
                                  /\ WF_vars(ht_count_add(self))
                                  /\ WF_vars(ht_count_del(self))
                                  /\ WF_vars(delete_bucket(self))
+                                 /\ WF_vars(partition(self))
                                  /\ WF_vars(target_grow(self))
                                  /\ WF_vars(lazy_launch(self))
                                  /\ WF_vars(lazy_grow(self))
                                  /\ WF_vars(lazy_count(self))
+        /\ \A self \in Helpers : /\ WF_vars(helper(self))
+                                 /\ WF_vars(check_resize(self))
+                                 /\ WF_vars(target_grow(self))
+                                 /\ WF_vars(lazy_launch(self))
+                                 /\ WF_vars(lazy_grow(self))
         /\ \A self \in {W} : /\ WF_vars(worker(self))
                              /\ WF_vars(do_resize(self))
                              /\ WF_vars(delete_bucket(self))
+                             /\ WF_vars(partition(self))
+                             /\ WF_vars(target_grow(self))
+                             /\ WF_vars(lazy_launch(self))
+                             /\ WF_vars(lazy_grow(self))
+                             /\ WF_vars(check_resize(self))
 
 \* END TRANSLATION
 
 ThreadsDone == \A t \in Threads : pc[t] = "Done"
-AllDone == ThreadsDone /\ wq = <<>> /\ pc[W] = "w_wait" /\ \A p \in Procs : sb[p] = <<>>
+AllDone == ThreadsDone /\ wq = <<>> /\ pc[W] = "w_wait" /\ (\A p \in Procs : sb[p] = <<>>) /\ \A h \in Helpers : pc[h] = "hp_reg"
 DeadlockFree == AllDone \/ ENABLED Next
+\* model checking: quiescence is the only state without a successor (TLC's own deadlock check replaces DeadlockFree)
+MCNext == Next \/ (AllDone /\ UNCHANGED vars)
+MCSpec == Init /\ [][MCNext]_vars
 \* At quiescence a table that is not being destroyed has reached its target -- unless the lazy-resize flag is (still)
 \* set although no resize is queued or running (observation O2: __cds_lfht_resize_lazy_launch stores resize_initiated = 1
 \* AFTER queueing the work, possibly after the worker has already finished it).
@@ -1987,7 +2515,6 @@ Quiesces == <>[](ThreadsDone /\ wq = <<>> /\ pc[W] = "w_wait")    \* ... and the
 
 \* partition_resize_helper(): the partitions handed to the helper threads plus the single-threaded leftover cover
 \* [0, len) exactly once, for every pthread_create failure position (pure arithmetic of the C code)
-PartThreads(len, ncpumask, mpo) == IF ncpumask > 0 THEN Min2(ncpumask + 1, len \div Pow2(mpo)) ELSE 1
 PartCover(len, ncpumask, mpo, failAt) ==
   IF ncpumask < 0 \/ len < 2 * Pow2(mpo) THEN <<{}, [start |-> 0, len |-> len]>>                \* goto fallback
   ELSE LET nt == PartThreads(len, ncpumask, mpo)
